@@ -1,49 +1,92 @@
-"""Configuration-frame typing of finite-deformation kinematics (objectivity at the level of tensor
-expressions).
+"""Configuration-frame typing of the finite-deformation models (objectivity / isotropy at the level of tensor
+expressions), decided by *interpreting the models themselves*.
 
-Matrix-valued expressions are lowered to *non-commutative polynomials* in typed letters:
-    F : [spatial, reference]      P : [intermediate, reference]   (plastic / viscous distortion)
-    transposes and inverses swap / exchange the frames; the identity is the empty word (polymorphic).
-The displacement gradient is H = F - 1, so expressions written in H are expanded and non-invariant
-terms must cancel (e.g. 2 tr H + H:H = tr(F^T F) - 3).  Checks:
-  * every word of a product must chain (column frame of a factor = row frame of the next);
-  * spectral functions / inverses / deviators take endomorphisms of ONE frame;
-  * every trace / determinant that survives cancellation is taken of a well-typed closed word, so the scalar
-    is unchanged by a superposed rotation F -> Q F (which only touches the spatial frame);
-  * a tensor stored back into the internal state has exactly the frames of the state it replaces, and tensors
-    that carry a spatial index never enter the state.
+Every material factory is called (optilint.tensoreval.Interp, the library is never executed) for every option scenario that
+is enumerated from its source, and the closures it returns -- the public `MaterialModel` interface
+compute_energy_density / compute_state_new -- are interpreted on *frame-typed symbolic inputs*:
+
+    displacement gradient   H = F - 1        F : [spatial S, reference R]
+    internal state          a vector of opaque cells; nine consecutive cells that the model reshapes to 3x3 are a
+                            stored tensor P_k : [intermediate I_k, R]  (multiplicative distortion, own intermediate
+                            configuration for every slot)  or  [R, R]  (additive strain); the typing that is consistent
+                            is *inferred*: a model is refuted only if no admissible typing of its state exists
+    everything else         exact rational scalars over named positive symbols (material constants, dt, phase, ...)
+
+Matrix values are non-commutative polynomials in typed letters (`NC`).  Transposes / inverses swap the frames, the
+identity is the empty word (polymorphic), spectral functions / expm / inverses of sums create fresh letters of the
+frames of their argument (memoised on the argument, so the same strain computed twice is the same letter).  Scalars
+created from tensors are atoms: tr[w] of a closed word (cyclic + transpose canonical form), det[X], components
+c!<w>[i,j] (with c[2,2] := tr - c[0,0] - c[1,1], so hand-written traces cancel), opaque functions of scalars.
+Helpers, loops, comprehensions, tuples / NamedTuples, functools.partial, lax.cond / where on symbolic conditions (both
+branches are interpreted and joined), `.at[].set`, hstack ... are *followed*, never matched: a refactoring that moves code
+between functions, renames things or changes the idiom leaves the derived values unchanged.
+
+Closed-form 3x3 helpers that read single components (determinant, inverse, trace, second invariant, det(A+1)-1 ...) are recognised by
+their *value on a generic symbolic matrix* (`recognise_helper`), not by their names or modules; det(c 1 + W) is expanded by
+Cayley-Hamilton so that expansions in H = F - 1 come back to invariants of F.  Only `TensorMath.symmetric_matrix_function` (the
+spectral-function primitive) is a named transfer function.
+
+Derived facts and verdicts (REFUTED only for a derived contradiction, PROVED only symbolically):
+  * a spectral function / matrix exponential / inverse of a sum / element-wise selection is applied to a tensor that is not a tensor of
+    ONE pair of frames (adjacent indices of a product in different frames, sum of different frames), or a spectral function to a
+    tensor that is not an endomorphism of one frame                                           -> REFUTED at that expression;
+  * scalars (energy, stored scalars): PROVED when built from invariants only.  When non-invariant atoms (tr!<w>, c!<w>[i,j], det!<p>)
+    survive all cancellation, the derived expression is *evaluated at generic pseudo-random tensors before and after a rotation of
+    each frame* (every letter transforms by the law its frame type asserts, `Sampler`): a change of the value, or of a quantity
+    the value switches on, is an explicit witness                                              -> REFUTED (named: which quantity, which frame);
+    no change                                                                                 -> UNDECIDED (cancellation not proved);
+  * the tensor written to slot k of the new state: PROVED when it has the frames of the tensor read from slot k (no spatial
+    index if the slot is never read as a tensor); otherwise the same evaluation decides whether it transforms like the stored
+    tensor: a rotation under which it does not                                                -> REFUTED, none found -> UNDECIDED;
+  * anything the interpreter does not understand                                              -> UNDECIDED (never a violation).
+The stored tensors are typed [I_k, R]; only a stored tensor that is never multiplied with / inverted against another tensor (it is
+merely added to strains) may alternatively be typed [R, R]; the typing with the better verdicts is reported.
+A sub-computation all of whose inputs are frame invariant (root finders, hardening laws, ...) is invariant whatever it
+computes (parametricity); when it cannot be interpreted it evaluates to an opaque invariant value.
+Scenarios whose option *declares* geometrically linear kinematics ('kinematics': 'small deformations', 'strain measure': 'linear',
+or the default that runs the same code) are outside the property ("formulated in finite deformations") and are not obligations.
 """
 from __future__ import annotations
 
 import ast
+import math
+from fractions import Fraction
 
-from optilint.expr import Algebra, Rat, Poly, NotPolynomial
-from optilint.model import dotted, norm_src
-from optilint.cfg import cfg_of
+from optilint.expr import Rat, Poly, NotPolynomial, simplify
+from optilint.model import norm_src
+from optilint.tensoreval import (Interp, Dual, Arr, EvalError, Raised, Closure, PyFunc, Ext, Record, Deriv, Vmapped, Env,
+                                 AtProxy, AtIndexed, NamedTupleVal, _A, rat_const, rat_sign, rat_is_zero, R)
+from . import materials as mt
 
-A = Algebra()
+A = _A
 S, Rf, If = "S", "R", "I"
-
-LETTER_T = {"F": (S, Rf), "Ft": (Rf, S), "Fi": (Rf, S), "Fit": (S, Rf),
-            "P": (If, Rf), "Pt": (Rf, If), "Pi": (Rf, If), "Pit": (If, Rf),
-            "E": (Rf, Rf)}          # E: a symmetric strain measure of the reference frame (its own transpose)
-TRANSPOSE = {"F": "Ft", "Ft": "F", "Fi": "Fit", "Fit": "Fi", "P": "Pt", "Pt": "P", "Pi": "Pit", "Pit": "Pi", "E": "E"}
-INVERSE = {"F": "Fi", "Fi": "F", "Ft": "Fit", "Fit": "Ft", "P": "Pi", "Pi": "P", "Pt": "Pit", "Pit": "Pt"}
+MARK = "!<"           # every atom that is NOT invariant under a rotation of a frame contains this marker
+GEOM_LINEAR = {("kinematics", "small deformations"), ("strain measure", "linear")}     # options that declare geometrically linear kinematics
+MAX_PATHS = 24
 
 
 class FrameError(Exception):
-    def __init__(self, node, msg):
-        self.node, self.msg = node, msg
+    def __init__(self, node, msg, scope=None):
+        super().__init__(msg)
+        self.node, self.msg, self.scope = node, msg, scope
 
 
-class Unknown(Exception):
-    pass
+# ------------------------------------------------------------------------------------------------ letters and words
+# a letter is (base, transposed, inverted); the table `bases` of the interpreter gives the frames of the base letter
+
+def lname(x):
+    b, t, i = x
+    return b + ("^-T" if t and i else "^T" if t else "^-1" if i else "")
+
+
+def wname(w):
+    return ".".join(lname(x) for x in w) or "1"
 
 
 class NC:
-    """sum of coef * word ; word = tuple of letters."""
+    """sum of coef * word ; word = tuple of letters, coef = exact rational normal form (Rat)."""
 
-    def __init__(self, terms=None, letters=None):
+    def __init__(self, terms=None):
         self.t = {w: c for w, c in (terms or {}).items() if not A.is_zero(c)}
 
     @staticmethod
@@ -57,11 +100,11 @@ class NC:
     def __add__(self, o):
         d = dict(self.t)
         for w, c in o.t.items():
-            d[w] = A.norm(d[w] + c) if w in d else c
+            d[w] = simplify(A.norm(d[w] + c)) if w in d else c
         return NC(d)
 
     def scale(self, c: Rat):
-        return NC({w: A.norm(v * c) for w, v in self.t.items()})
+        return NC({w: simplify(A.norm(v * c)) for w, v in self.t.items()})
 
     def __neg__(self):
         return self.scale(A.const(-1))
@@ -71,544 +114,1926 @@ class NC:
         for w1, c1 in self.t.items():
             for w2, c2 in o.t.items():
                 w = _cancel(w1 + w2)
-                d[w] = A.norm(d[w] + c1 * c2) if w in d else A.norm(c1 * c2)
+                d[w] = simplify(A.norm(d[w] + c1 * c2)) if w in d else simplify(A.norm(c1 * c2))
         return NC(d)
 
-    def T(self, types):
-        return NC({tuple(_tr(x, types) for x in reversed(w)): c for w, c in self.t.items()})
+    def same(self, o):
+        return set(self.t) == set(o.t) and all(A.equal(c, o.t[w]) for w, c in self.t.items())
+
+    def key(self):
+        return " + ".join(f"({self.t[w]!r})*{wname(w)}" for w in sorted(self.t)) or "0"
 
     def __repr__(self):
-        return " + ".join(f"({c!r})*{'.'.join(w) or '1'}" for w, c in self.t.items()) or "0"
+        return self.key()
 
 
 def _cancel(w):
     out = []
     for x in w:
-        if out and INVERSE.get(out[-1]) == x:
+        if out and out[-1][0] == x[0] and out[-1][1] == x[1] and out[-1][2] != x[2]:
             out.pop()
         else:
             out.append(x)
     return tuple(out)
 
 
-def _tr(x, types):
-    if x in TRANSPOSE:
-        return TRANSPOSE[x]
-    t = types[x]
-    if t.get("symmetric"):
-        return x
-    nm = x + "^T"
-    if nm not in types:
-        types[nm] = {"type": (t["type"][1], t["type"][0])}
-    return nm
+# ------------------------------------------------------------------------------------------------ values
+
+class Tens:
+    """a 3x3 tensor value"""
+    __slots__ = ("p",)
+
+    def __init__(self, p: NC):
+        self.p = p
+
+    def __repr__(self):
+        return f"<tensor {self.p.key()[:80]}>"
 
 
-class FrameEval:
-    def __init__(self, ctx, scope, env, rule):
-        self.ctx, self.scope, self.rule = ctx, scope, rule
-        self.env = dict(env)
-        self.types = {k: {"type": v} for k, v in LETTER_T.items()}
+class TC:
+    """k-th entry (row major) of the flattened tensor t"""
+    __slots__ = ("t", "k")
+
+    def __init__(self, t, k):
+        self.t, self.k = t, k
+
+
+class SC:
+    """k-th entry of the old internal state"""
+    __slots__ = ("k",)
+
+    def __init__(self, k):
+        self.k = k
+
+
+class Vec:
+    """1-d array whose cells are scalars (Dual), entries of flattened tensors (TC) or entries of the old state (SC)"""
+
+    def __init__(self, cells):
+        self.cells = list(cells)
+
+    def __len__(self):
+        return len(self.cells)
+
+    def __repr__(self):
+        return f"<vector of {len(self.cells)} cells>"
+
+
+class InvVal:
+    """result of a computation all of whose inputs are frame invariant and that could not be interpreted"""
+
+    def __init__(self, why=""):
+        self.why = why
+        self.atom = None
+
+    def __repr__(self):
+        return "<invariant value>"
+
+
+class Cond:
+    """a comparison the constants do not decide"""
+    __slots__ = ("d",)
+
+    def __init__(self, d: Dual):
+        self.d = d
+
+    def __bool__(self):
+        raise EvalError("truth value of a symbolic condition")
+
+    def __repr__(self):
+        return f"<cond {self.d!r}>"
+
+
+class Hadamard:
+    """entry-wise product of two tensors: only its sum over all entries (the double contraction) is frame-typed"""
+    def __init__(self, a, b):
+        self.a, self.b = a, b
+
+
+class Partial:
+    def __init__(self, fn, args, kwargs):
+        self.fn, self.args, self.kwargs = fn, list(args), dict(kwargs)
+
+
+def _scalar_like(v):
+    return isinstance(v, (Dual, int, float, Fraction, InvVal)) and not isinstance(v, bool)
+
+
+
+# ------------------------------------------------------------------------------------------------ the interpreter
+
+class FrameInterp(Interp):
+    """optilint.tensoreval.Interp extended with frame-typed tensors, abstract state vectors, symbolic conditions
+    (joins / path enumeration) and opaque invariant values."""
+
+    def __init__(self, repo, state_kind="mult", positive=()):
+        super().__init__(repo, positive=positive, max_depth=60)
+        self.state_kind = state_kind
+        self.bases = {"F": {"type": (S, Rf), "sym": False}}
         self.n_letters = 0
         self.checked = 0
+        self.memo = {}                 # memoised letters: key -> Tens
+        self.opaque = {}               # opaque scalar atoms: atom -> (name, [Rat args])
+        self.opaque_key = {}           # key -> atom
+        self.comps = {}                # component atoms: atom -> (word, i, j)
+        self.state_letters = {}        # slot start -> base letter name
+        self.scalar_slots = set()
+        self.decisions, self.taken, self.assumed = [], [], {}
+        self.cur = (None, None)
+        self.fallbacks = []
+        self._probing = 0
+        self.n_inv = 0
+        self.state_in_products = False     # a stored tensor is multiplied with / inverted against other tensors
+        self.comp_where = {}
+        self.bad_words = {}                # products whose adjacent indices live in different frames: word -> creation site
+        self.tr_words, self.det_polys = {}, {}
+        self.ravel_where, self._keep = {}, []
+        self.special["optimism.TensorMath:symmetric_matrix_function"] = lambda it, a, k: it.t_spectral(*_bind(a, k, ("A", "func")))
+        self.special["optimism.Math:safe_sqrt"] = lambda it, a, k: it.s_fun("sqrt", [a[0]])
 
+    # ---- letters
     def ltype(self, x):
-        return self.types[x]["type"]
+        r, c = self.bases[x[0]]["type"]
+        return (c, r) if (x[1] ^ x[2]) else (r, c)
 
-    # ---- typing of words / polynomials
-    def word_type(self, w, node):
+    def l_T(self, x):
+        if self.bases[x[0]]["sym"]:
+            return x
+        return (x[0], 1 - x[1], x[2])
+
+    @staticmethod
+    def l_inv(x):
+        return (x[0], x[1], 1 - x[2])
+
+    def new_letter(self, ty, sym, tag, key=None):
+        if key is not None and key in self.memo:
+            return self.memo[key]
+        self.n_letters += 1
+        nm = f"{tag}{self.n_letters}"
+        self.bases[nm] = {"type": tuple(ty), "sym": bool(sym) and ty[0] == ty[1]}
+        t = Tens(NC.letter((nm, 0, 0)))
+        if key is not None:
+            self.memo[key] = t
+        return t
+
+    def state_letter(self, k):
+        if k not in self.state_letters:
+            nm = f"P{k}"
+            ty = (f"{If}{k}", Rf) if self.state_kind == "mult" else (Rf, Rf)
+            self.bases[nm] = {"type": ty, "sym": False}
+            self.state_letters[k] = nm
+        return Tens(NC.letter((self.state_letters[k], 0, 0)))
+
+    def nc_T(self, p: NC):
+        return NC({tuple(self.l_T(x) for x in reversed(w)): c for w, c in p.t.items()})
+
+    def is_sym(self, p: NC):
+        return p.same(self.nc_T(p))
+
+    # ---- errors with positions
+    def ferr(self, msg):
+        node, env = self.cur
+        sc = getattr(env, "scope", None) if env is not None else None
+        return FrameError(node, msg, sc)
+
+    # ---- typing
+    def word_ok(self, w):
+        """adjacent indices of the product live in the same frame"""
+        for x, y in zip(w, w[1:]):
+            if self.ltype(x)[1] != self.ltype(y)[0]:
+                return False
+        return True
+
+    def chain_defect(self, w):
+        for x, y in zip(w, w[1:]):
+            if self.ltype(x)[1] != self.ltype(y)[0]:
+                return f"product `{wname(w)}` chains a [{self.ltype(x)[1]}] column index with a [{self.ltype(y)[0]}] row index"
+        return None
+
+    def word_type(self, w):
+        """(frame of the row index, frame of the column index); None for the identity.  Never raises: a product whose adjacent
+        indices live in different frames (an expansion in H = F - 1 produces them, and they may cancel) is recorded and judged at the
+        sinks: spectral functions / stored tensors need well-typed operands, scalars are judged by their transformation behaviour."""
         if not w:
-            return None           # identity: polymorphic
-        row = self.ltype(w[0])[0]
-        cur = self.ltype(w[0])[1]
-        for x in w[1:]:
-            r, c = self.ltype(x)
-            if r != cur:
-                raise FrameError(node, f"product `{'.'.join(w)}` chains a [{cur}] column index with a [{r}] row index")
-            cur = c
-        return (row, cur)
+            return None
+        if not self.word_ok(w):
+            self.bad_words.setdefault(w, self.cur)
+        return (self.ltype(w[0])[0], self.ltype(w[-1])[1])
 
-    def poly_type(self, p: NC, node, what):
-        """common (row, col) type of all words; identity words are polymorphic endomorphisms."""
+    def poly_type(self, p: NC, what):
+        """common frames of all words of a tensor that is consumed as ONE typed tensor; raises FrameError when there are none"""
         self.checked += 1
-        ty = None
-        has_ident = False
+        ty, has_ident = None, False
         for w in p.t:
-            t = self.word_type(w, node)
+            if w and not self.word_ok(w):
+                raise self.ferr(f"{what}: {self.chain_defect(w)}")
+            t = self.word_type(w)
             if t is None:
                 has_ident = True
-                continue
-            if ty is None:
+            elif ty is None:
                 ty = t
             elif ty != t:
-                raise FrameError(node, f"{what}: sum of tensors with frames {ty} and {t}")
+                raise self.ferr(f"{what}: sum of tensors with frames {ty} and {t}")
         if ty is None:
             return ("*", "*")
         if has_ident and ty[0] != ty[1]:
-            raise FrameError(node, f"{what}: the identity is added to a tensor with frames {ty} (terms in F that are not invariant do not cancel)")
+            raise self.ferr(f"{what}: the identity is added to a tensor with frames {ty} (terms in F that are not invariant do not cancel)")
         return ty
 
-    def new_letter(self, ty, symmetric, tag):
-        self.n_letters += 1
-        nm = f"{tag}{self.n_letters}"
-        self.types[nm] = {"type": ty, "symmetric": symmetric}
-        return NC.letter(nm)
+    def try_type(self, p: NC):
+        """poly_type without raising: frames or None"""
+        cur = self.cur
+        try:
+            return self.poly_type(p, "tensor")
+        except FrameError:
+            return None
+        finally:
+            self.cur = cur
 
-    # ---- scalar functionals
-    def trace(self, p: NC, node):
-        tot = A.const(0)
-        for w, c in p.t.items():
-            if not w:
-                tot = tot + c * A.const(3)
-                continue
-            t = self.word_type(w, node)
-            self.checked += 1
-            if t[0] != t[1]:
-                # not invariant by itself; legitimate only if it cancels in the final scalar
-                tot = tot + c * A.atom("tr!<" + ".".join(self.canon_cyclic(w)) + ">")
-                continue
-            tot = tot + c * A.atom("tr[" + ".".join(self.canon_cyclic(w)) + "]")
-        return A.norm(tot)
+    def endo(self, v, what):
+        if not isinstance(v, Tens):
+            raise EvalError(f"{what} of a value that is not a typed tensor")
+        ty = self.poly_type(v.p, what)
+        if ty[0] != ty[1]:
+            raise self.ferr(f"{what} is applied to a tensor with frames {ty}; it needs an endomorphism of one frame")
+        return ty
+
+    # ---- scalar atoms
+    def opq(self, name, *vals):
+        rs = [simplify(A.norm(v.a if isinstance(v, Dual) else R(v))) for v in vals]
+        key = f"{name}({' | '.join(repr(r) for r in rs)})"
+        if key not in self.opaque_key:
+            bad = any(MARK in a for r in rs for a in r.atoms())
+            atom = f"{name}#{len(self.opaque_key)}" + (MARK + ">" if bad else "")
+            self.opaque_key[key] = atom
+            self.opaque[atom] = (name, rs)
+            self.comp_where.setdefault(atom, self.cur)
+        return Dual(A.atom(self.opaque_key[key]))
+
+    def show(self, r: Rat, depth=3):
+        s = repr(r)
+        for _ in range(depth):
+            hit = False
+            for atom, (name, rs) in sorted(self.opaque.items(), key=lambda kv: -len(kv[0])):
+                if atom in s:
+                    s = s.replace(atom, f"{name}({', '.join(repr(x) for x in rs)})")
+                    hit = True
+            if not hit:
+                break
+        return s if len(s) < 300 else s[:297] + "..."
 
     def canon_cyclic(self, w):
+        # cyclic cancellation, then the least of all rotations of the word and of its transpose
+        w = list(w)
+        while len(w) >= 2 and w[0][0] == w[-1][0] and w[0][1] == w[-1][1] and w[0][2] != w[-1][2]:
+            w = w[1:-1]
+        w = tuple(w)
+        if not w:
+            return w
+        wt = tuple(self.l_T(x) for x in reversed(w))
         cands = []
-        wt = tuple(_tr(x, self.types) for x in reversed(w))
         for v in (w, wt):
             for i in range(len(v)):
                 cands.append(v[i:] + v[:i])
         return min(cands)
 
-    # ---- expression evaluation: returns NC (matrix) or Rat (scalar)
-    def ev(self, e):
-        if isinstance(e, ast.Constant) and isinstance(e.value, (int, float)) and not isinstance(e.value, bool):
-            return A.const(e.value)
-        if isinstance(e, ast.Name):
-            if e.id in self.env:
-                return self.env[e.id]
-            return A.atom(e.id)
-        if isinstance(e, ast.Attribute):
-            if e.attr == "T":
-                v = self.ev(e.value)
-                if isinstance(v, NC):
-                    return v.T(self.types)
+    def tr_of(self, p: NC) -> Dual:
+        tot = A.const(0)
+        for w, c in p.t.items():
+            if not w:
+                tot = tot + c * A.const(3)
+                continue
+            t = self.word_type(w)
+            self.checked += 1
+            cw = self.canon_cyclic(w)
+            if not cw:
+                tot = tot + c * A.const(3)
+                continue
+            closed_ok = self.word_ok(cw) and self.ltype(cw[0])[0] == self.ltype(cw[-1])[1]
+            if closed_ok:
+                atom = "tr[" + wname(cw) + "]"
+            else:
+                atom = "tr" + MARK + wname(cw) + ">"          # not invariant by itself; legitimate only if it cancels in the final scalar
+                self.comp_where.setdefault(atom, self.cur)
+            self.tr_words[atom] = cw
+            tot = tot + c * A.atom(atom)
+        return Dual(simplify(A.norm(tot)))
+
+    def comp(self, p: NC, i, j) -> Dual:
+        tot = A.const(0)
+        for w, c in p.t.items():
+            if not w:
+                if i == j:
+                    tot = tot + c
+                continue
+            self.word_type(w)
+            tot = tot + c * self._comp_word(w, i, j)
+        return Dual(simplify(A.norm(tot)))
+
+    def _comp_word(self, w, i, j) -> Rat:
+        wt = tuple(self.l_T(x) for x in reversed(w))
+        if wt == w and i > j:
+            i, j = j, i
+        elif wt < w:
+            w, i, j = wt, j, i
+        if i == 2 and j == 2:
+            return self.tr_of(NC({w: A.const(1)})).a - self._comp_word(w, 0, 0) - self._comp_word(w, 1, 1)
+        atom = f"c{MARK}{wname(w)}>[{i},{j}]"
+        self.comps[atom] = (w, i, j)
+        self.comp_where.setdefault(atom, self.cur)
+        return A.atom(atom)
+
+    def det_word(self, w) -> Rat:
+        r = A.const(1)
+        for x in w:
+            a = A.atom(f"det[{x[0]}]")
+            r = r / a if x[2] else r * a
+        return r
+
+    # ---- tensor primitives
+    def as_tens(self, v, what="tensor operand"):
+        if isinstance(v, Tens):
+            return v
+        if isinstance(v, Arr) and v.shape == (3, 3):
+            l = self.lift(v)
+            if l is not None:
+                return l
+            raise EvalError(f"{what}: a constant matrix that is not a multiple of the identity has no frame type")
+        if isinstance(v, Vec) and len(v) == 9:
+            return self.vec_to_tens(v.cells)
+        raise EvalError(f"{what}: {v!r} is not a 3x3 tensor")
+
+    def lift(self, arr: Arr):
+        if arr.shape != (3, 3) or not arr.is_diagonal():
+            return None
+        d = [arr.data[0], arr.data[4], arr.data[8]]
+        if any(not rat_is_zero(x.b) for x in d) or not (A.equal(d[0].a, d[1].a) and A.equal(d[0].a, d[2].a)):
+            return None
+        return Tens(NC({(): d[0].a}))
+
+    def _has_state(self, p: NC):
+        st = set(self.state_letters.values())
+        return any(x[0] in st for w in p.t for x in w)
+
+    def t_matmul(self, a: Tens, b: Tens):
+        if (self._has_state(a.p) and any(w for w in b.p.t)) or (self._has_state(b.p) and any(w for w in a.p.t)):
+            self.state_in_products = True
+        r = a.p.mul(b.p)
+        for w in r.t:
+            self.word_type(w)
+        self.checked += 1
+        return Tens(r)
+
+    def t_det(self, v):
+        if not isinstance(v, Tens):
+            if isinstance(v, Arr):
+                return self.np_call("linalg.det", [v], {})
+            raise EvalError("det of a value that is not a tensor")
+        p = v.p
+        for w in p.t:
+            self.word_type(w)
+        if not p.t:
+            return Dual(0)
+        if len(p.t) == 1:
+            (w, c), = p.t.items()
+            return Dual(simplify(A.norm(c * c * c * self.det_word(w))))
+        if len(p.t) == 2 and () in p.t:
+            # det(c0 1 + c1 W) = c0^3 + c0^2 c1 tr W + c0 c1^2 I2(W) + c1^3 det W,  I2(W) = (tr(W)^2 - tr(W W))/2   (Cayley-Hamilton):
+            # an expansion in H = F - 1 is brought back to invariants of F (traces that are not invariant cancel in the caller's sum)
+            c0 = p.t[()]
+            (w, c1), = [(w_, c_) for w_, c_ in p.t.items() if w_]
+            W = NC({w: A.const(1)})
+            trw = self.tr_of(W).a
+            i2 = (trw * trw - self.tr_of(W.mul(W)).a) * A.const(Fraction(1, 2))
+            return Dual(simplify(A.norm(c0 * c0 * c0 + c0 * c0 * c1 * trw + c0 * c1 * c1 * i2 + c1 * c1 * c1 * self.det_word(w))))
+        ty = self.try_type(p)
+        # det of a sum: an invariant of an endomorphism of one frame; of anything else it is not invariant by itself
+        atom = f"det<{p.key()}>" if ty is not None and ty[0] == ty[1] else f"det{MARK}{p.key()}>"
+        self.det_polys[atom] = p
+        self.comp_where.setdefault(atom, self.cur)
+        return Dual(A.atom(atom))
+
+    def t_detpIm1(self, v):
+        if not isinstance(v, Tens):
+            raise EvalError("detpIm1 of a value that is not a tensor")
+        return self.t_det(Tens(v.p + NC.ident())) - Dual(1)
+
+    def t_inv(self, v):
+        if not isinstance(v, Tens):
+            if isinstance(v, Arr):
+                return self.np_call("linalg.inv", [v], {})
+            raise EvalError("inverse of a value that is not a tensor")
+        p = v.p
+        if self._has_state(p):
+            self.state_in_products = True
+        if len(p.t) == 1:
+            (w, c), = p.t.items()
+            self.word_type(w)
+            return Tens(NC({tuple(self.l_inv(x) for x in reversed(w)): simplify(A.norm(A.const(1) / c))}))
+        ty = self.endo(v, "inverse")
+        return self.new_letter(ty, self.is_sym(p), "Inv", key=("inv", p.key()))
+
+    def t_spectral(self, v, f):
+        """isotropic tensor function: the scalar function f applied to the eigenvalues of a symmetric tensor"""
+        if isinstance(v, Arr):
+            v = self.as_tens(v, "spectral function")
+        ty = self.endo(v, "spectral function")
+        fk = self.fkey(f)
+        if ty == ("*", "*"):
+            c = Dual(next(iter(v.p.t.values()))) if v.p.t else Dual(0)
+            return Tens(NC({(): self.num(self.call(f, [c], {})).a}))
+        return self.new_letter(ty, True, "Sp", key=("spectral", fk, v.p.key()))
+
+    def fkey(self, f):
+        try:
+            r = self.num(self.call(f, [Dual(A.atom("@lambda"))], {}))
+            return repr(r.a)
+        except (EvalError, Raised, KeyError, IndexError, TypeError, AttributeError):
+            if isinstance(f, Closure):
+                return f.scope.qualname + ":" + norm_src(f.scope.node)[:200]
+            return repr(f)
+
+    def t_expm(self, v):
+        v = self.as_tens(v, "matrix exponential")
+        ty = self.endo(v, "matrix exponential")
+        if ty == ("*", "*"):
+            c = Dual(next(iter(v.p.t.values()))) if v.p.t else Dual(0)
+            return Tens(NC({(): self.s_fun("exp", [c]).a}))
+        return self.new_letter(ty, self.is_sym(v.p), "Exp", key=("expm", v.p.key()))
+
+    def t_einsum(self, spec, ops):
+        """einsum of one or two second-order tensors"""
+        spec = spec.replace(" ", "")
+        lhs, arrow, rhs = spec.partition("->")
+        ins = lhs.split(",")
+        ts = [self.as_tens(o, "einsum") for o in ops]
+        if len(ins) != len(ts) or any(len(i) != 2 for i in ins) or len(ts) not in (1, 2):
+            raise EvalError(f"einsum {spec!r} of tensors")
+        if not arrow:
+            rhs = "".join(sorted(ch for ch in set(lhs) - {","} if lhs.count(ch) == 1))
+        if len(ts) == 1:
+            (i, j), t = ins[0], ts[0]
+            if i == j and rhs == "":
+                return self.tr_of(t.p)
+            if i != j and rhs == i + j:
+                return t
+            if i != j and rhs == j + i:
+                return Tens(self.nc_T(t.p))
+            raise EvalError(f"einsum {spec!r}")
+        (a, b), (c, d) = ins
+        A_, B_ = ts
+        if len({a, b}) < 2 or len({c, d}) < 2:
+            raise EvalError(f"einsum {spec!r}")
+        shared = {a, b} & {c, d}
+        if len(shared) == 2 and rhs == "":
+            return self.t_tensordot(A_, B_) if (a, b) == (c, d) else self.t_tensordot(A_, Tens(self.nc_T(B_.p)))
+        if len(shared) == 1 and len(rhs) == 2:
+            k = next(iter(shared))
+            L = A_ if b == k else Tens(self.nc_T(A_.p))
+            Rr = B_ if c == k else Tens(self.nc_T(B_.p))
+            i = a if b == k else b
+            j = d if c == k else c
+            M = self.t_matmul(L, Rr)
+            if rhs == i + j:
+                return M
+            if rhs == j + i:
+                return Tens(self.nc_T(M.p))
+        raise EvalError(f"einsum {spec!r}")
+
+    def t_tensordot(self, a, b):
+        a, b = self.as_tens(a, "tensordot"), self.as_tens(b, "tensordot")
+        return self.tr_of(self.nc_T(a.p).mul(b.p))
+
+    # ---- scalar functions of symbolic arguments: constant folding first, opaque atom otherwise
+    def s_fun(self, name, args):
+        vals = [self.num(a) for a in args]
+        if any(not isinstance(v, Dual) for v in vals):
+            raise EvalError(f"{name} of a non-scalar")
+        try:
+            return Interp.np_call(self, name, vals, {})
+        except (EvalError, ZeroDivisionError):
+            return self.opq(name, *vals)
+
+    # ---- vectors
+    def cell_value(self, c) -> Dual:
+        if isinstance(c, Dual):
+            return c
+        if isinstance(c, SC):
+            self.scalar_slots.add(c.k)
+            return Dual(A.atom(f"state[{c.k}]"))
+        return self.comp(c.t.p, c.k // 3, c.k % 3)
+
+    def to_vec(self, v):
+        if isinstance(v, Vec):
+            return v
+        if isinstance(v, Tens):
+            self.ravel_where.setdefault(id(v), self.cur)
+            self._keep.append(v)
+            return Vec([TC(v, k) for k in range(9)])
+        if isinstance(v, Arr):
+            return Vec(list(v.data))
+        if isinstance(v, (list, tuple)):
+            out = []
+            for x in v:
+                out += self.to_vec(x).cells
+            return Vec(out)
+        if _scalar_like(v):
+            return Vec([self.num(v)])
+        raise EvalError(f"{v!r} is not a vector")
+
+    def vec_to_tens(self, cells):
+        if len(cells) != 9:
+            raise EvalError("reshape of a vector that does not have nine entries to 3x3")
+        if all(isinstance(c, TC) for c in cells):
+            if all(c.t is cells[0].t and c.k == k for k, c in enumerate(cells)):
+                return cells[0].t
+            raise EvalError("a 3x3 tensor assembled from entries of different tensors")
+        if all(isinstance(c, SC) for c in cells):
+            if all(c.k == cells[0].k + k for k, c in enumerate(cells)):
+                return self.state_letter(cells[0].k)
+            raise EvalError("a 3x3 tensor assembled from non-contiguous state entries")
+        if all(isinstance(c, Dual) for c in cells):
+            return self.as_tens(Arr(list(cells), (3, 3)), "reshape")
+        raise EvalError("a 3x3 tensor assembled from entries of different kinds")
+
+    def blocks(self, v: Vec):
+        """[(offset, Tens | None)]: maximal decomposition into flattened tensors and single cells"""
+        out, i, cs = [], 0, v.cells
+        while i < len(cs):
+            c = cs[i]
+            if isinstance(c, TC) and c.k == 0 and i + 9 <= len(cs) and all(isinstance(x, TC) and x.t is c.t and x.k == k for k, x in enumerate(cs[i:i + 9])):
+                out.append((i, c.t))
+                i += 9
+            else:
+                out.append((i, None))
+                i += 1
+        return out
+
+    def vec_zip(self, a, b, fs, ft):
+        """cell-wise / block-wise combination of two vectors (a scalar broadcasts)"""
+        if not isinstance(a, Vec) and _scalar_like(a):
+            a = Vec([self.num(a)] * len(self.to_vec(b)))
+        if not isinstance(b, Vec) and _scalar_like(b):
+            b = Vec([self.num(b)] * len(self.to_vec(a)))
+        a, b = self.to_vec(a), self.to_vec(b)
+        if len(a) != len(b):
+            raise EvalError(f"vectors of lengths {len(a)} and {len(b)}")
+        starts = {o for (o, t) in self.blocks(a) + self.blocks(b) if t is not None}
+        out, i = [], 0
+        while i < len(a):
+            if i in starts:
+                ta, tb = self.vec_to_tens(a.cells[i:i + 9]), self.vec_to_tens(b.cells[i:i + 9])
+                r = ft(ta, tb)
+                out += [TC(r, k) for k in range(9)]
+                i += 9
+            else:
+                out.append(fs(self.cell_value(a.cells[i]), self.cell_value(b.cells[i])))
+                i += 1
+        return Vec(out)
+
+    def vec_scale(self, v: Vec, s: Dual, div=False):
+        out, cs = [], v.cells
+        for (o, t) in self.blocks(v):
+            if t is not None:
+                r = Tens(t.p.scale(A.const(1) / s.a if div else s.a))
+                out += [TC(r, k) for k in range(9)]
+            else:
+                x = self.cell_value(cs[o])
+                out.append(x / s if div else x * s)
+        return Vec(out)
+
+    def vec_set(self, base, key, val, add=False):
+        v = self.to_vec(base)
+        cells = list(v.cells)
+        n = len(cells)
+        if isinstance(key, int):
+            k = key + n if key < 0 else key
+            if not 0 <= k < n:
+                raise EvalError("index out of range")
+            new = self.num(val)
+            if not isinstance(new, Dual):
+                raise EvalError("a non-scalar is stored into one cell")
+            cells[k] = (self.cell_value(cells[k]) + new) if add else new
+            return Vec(cells)
+        if isinstance(key, slice):
+            if key.step not in (None, 1):
+                raise EvalError("strided store")
+            idx = list(range(*key.indices(n)))
+            src = Vec([self.num(val)] * len(idx)) if _scalar_like(val) else self.to_vec(val)
+            if len(src) != len(idx):
+                raise EvalError(".at[].set shape")
+            if add:
+                src = self.vec_zip(Vec(cells[idx[0]:idx[0] + len(idx)]), src, lambda x, y: x + y, lambda x, y: Tens(x.p + y.p))
+            if idx:
+                cells[idx[0]:idx[0] + len(idx)] = src.cells
+            return Vec(cells)
+        raise EvalError(f"unsupported store index {key!r}")
+
+    # ---- joins (np.where / lax.cond on a symbolic condition)
+    def select(self, c, a, b):
+        if isinstance(c, bool):
+            return a if c else b
+        if isinstance(c, Dual) and rat_const(c.a) is not None:
+            return a if rat_const(c.a) != 0 else b
+        if not isinstance(c, Cond):
+            raise EvalError(f"selection on {c!r}")
+        if a is None and b is None:
+            return None
+        if isinstance(a, (tuple, list)) and isinstance(b, (tuple, list)) and len(a) == len(b):
+            return type(a)(self.select(c, x, y) for x, y in zip(a, b))
+        if isinstance(a, Record) and isinstance(b, Record) and a.fields == b.fields:
+            return Record(a.tname, a.fields, [self.select(c, x, y) for x, y in zip(a.values, b.values)], cls=a.cls)
+        if _scalar_like(a) and _scalar_like(b):
+            x, y = self.num(a), self.num(b)
+            if A.equal(x.a, y.a):
+                return x
+            return self.opq("sel", c.d, x, y)
+        if isinstance(a, Tens) or isinstance(b, Tens):
+            return self.join_tens(c, a, b)
+        if isinstance(a, (Vec, Arr)) and isinstance(b, (Vec, Arr)):
+            if isinstance(a, Arr) and isinstance(b, Arr):
+                if a.shape != b.shape:
+                    raise EvalError("selection between arrays of different shapes")
+                return Arr([self.select(c, x, y) for x, y in zip(a.data, b.data)], a.shape)
+            if (isinstance(a, Arr) and a.ndim != 1) or (isinstance(b, Arr) and b.ndim != 1):
+                raise EvalError("selection between a vector and a matrix")
+            return self.vec_zip(a, b, lambda x, y: self.select(c, x, y), lambda x, y: self.join_tens(c, x, y))
+        raise EvalError(f"selection between {a!r} and {b!r}")
+
+    def join_tens(self, c, a, b):
+        def side(v):
+            if isinstance(v, Tens):
+                return v, self.poly_type(v.p, "selected tensor"), self.is_sym(v.p)
+            if isinstance(v, Arr) and v.shape == (3, 3):
+                l = self.lift(v)
+                if l is not None:
+                    return l, ("*", "*"), True
+                # a constant matrix: no frame of its own, it is a tensor of whatever frame it is selected into
+                return None, ("*", "*"), all(A.equal(v.data[i * 3 + j].a, v.data[j * 3 + i].a) for i in range(3) for j in range(3))
+            raise EvalError(f"selection between a tensor and {v!r}")
+        (ta, tya, sa), (tb, tyb, sb) = side(a), side(b)
+        if ta is not None and tb is not None and ta.p.same(tb.p):
+            return ta
+        if tya != ("*", "*") and tyb != ("*", "*") and tya != tyb:
+            raise self.ferr(f"selection between tensors with frames {tya} and {tyb}")
+        ty = tya if tya != ("*", "*") else tyb
+        if ty == ("*", "*"):
+            if ta is not None and tb is not None:
+                ca = next(iter(ta.p.t.values())) if ta.p.t else A.const(0)
+                cb = next(iter(tb.p.t.values())) if tb.p.t else A.const(0)
+                return Tens(NC({(): self.opq("sel", c.d, Dual(ca), Dual(cb)).a}))
+            raise EvalError("selection between constant matrices")
+        key = ("sel", repr(c.d), ta.p.key() if ta is not None else repr(a), tb.p.key() if tb is not None else repr(b))
+        return self.new_letter(ty, sa and sb, "Sel", key=key)
+
+    # ---- invariance
+    def is_inv(self, v, depth=0, seen=None):
+        seen = seen if seen is not None else set()
+        if v is None or isinstance(v, (bool, int, float, Fraction, str, slice, Ext, NamedTupleVal, InvVal)):
+            return True
+        if isinstance(v, Dual):
+            return not any(MARK in a for a in v.a.atoms()) and not any(MARK in a for a in v.b.atoms())
+        if isinstance(v, Cond):
+            return self.is_inv(v.d)
+        if isinstance(v, Arr):
+            return all(self.is_inv(x) for x in v.data)
+        if isinstance(v, (Tens, Vec)):
+            return False
+        if id(v) in seen or depth > 6:
+            return True
+        seen.add(id(v))
+        if isinstance(v, (tuple, list)):
+            if len(v) == 2 and v[0] == "module":
+                return True
+            return all(self.is_inv(x, depth + 1, seen) for x in v)
+        if isinstance(v, dict):
+            return all(self.is_inv(x, depth + 1, seen) for x in v.values())
+        if isinstance(v, Record):
+            return all(self.is_inv(x, depth + 1, seen) for x in v.values)
+        if isinstance(v, Partial):
+            return all(self.is_inv(x, depth + 1, seen) for x in [v.fn] + v.args + list(v.kwargs.values()))
+        if isinstance(v, (Deriv, Vmapped)):
+            return self.is_inv(v.fn, depth + 1, seen)
+        if isinstance(v, Closure):
+            if self._captures_invariant(v, depth, seen):
+                return True
+            return self._probe(v)
+        if isinstance(v, PyFunc):
+            return False
+        return False
+
+    def _captures_invariant(self, f: Closure, depth, seen):
+        env = f.env
+        if env is None or env.parent is None:
+            return True            # module level function: globals are constants and functions
+        local = set(f.scope.bindings)
+        for n in ast.walk(f.scope.node):
+            if isinstance(n, ast.Name) and isinstance(n.ctx, ast.Load) and n.id not in local:
+                e = env
+                while e is not None and e.parent is not None:      # stop before the module environment
+                    if n.id in e.vars:
+                        if not self.is_inv(e.vars[n.id], depth + 1, seen):
+                            return False
+                        break
+                    e = e.parent
+        return True
+
+    def _probe(self, f: Closure):
+        """a function value is invariant if it maps fresh invariant scalars to invariant values"""
+        if self._probing > 2:
+            return False
+        sc = f.scope
+        need = [p for p in sc.params() if sc.default_of(p) is None]
+        self._probing += 1
+        try:
+            args = [Dual(A.atom(f"@probe{k}")) for k in range(len(need))]
+            r = self.call(f, args, {})
+            return self.is_inv(r)
+        except (EvalError, Raised, KeyError, IndexError, TypeError, AttributeError, ZeroDivisionError, NotPolynomial, RecursionError):
+            return False
+        finally:
+            self._probing -= 1
+
+    # ---- numbers / truth / comparisons
+    def num(self, v):
+        if isinstance(v, InvVal):
+            if v.atom is None:
+                self.n_inv += 1
+                v.atom = Dual(A.atom(f"inv#{self.n_inv}"))
+            return v.atom
+        if isinstance(v, (Tens, Vec, Cond)):
+            raise EvalError(f"{v!r} used as a number")
+        return super().num(v)
+
+    def compare(self, a, op, b):
+        if isinstance(op, (ast.Lt, ast.LtE, ast.Gt, ast.GtE, ast.Eq, ast.NotEq)) and _scalar_like(a) and _scalar_like(b):
+            x, y = self.num(a), self.num(b)
+            d = simplify(A.norm(x.a - y.a))
+            if rat_sign(d, self.positive) is None:
+                return Cond(self.opq("cmp" + type(op).__name__, Dual(d)))
+        if isinstance(a, (Tens, Vec, Cond)) or isinstance(b, (Tens, Vec, Cond)):
+            raise EvalError("comparison of tensors")
+        return super().compare(a, op, b)
+
+    def truth(self, v):
+        if isinstance(v, Cond):
+            if not self.is_inv(v):
+                raise EvalError("control flow depends on a quantity that is not frame invariant")
+            k = repr(v.d)
+            if k in self.assumed:
+                return self.assumed[k]
+            d = self.decisions[len(self.taken)] if len(self.taken) < len(self.decisions) else True
+            self.taken.append(d)
+            self.assumed[k] = d
+            return d
+        if isinstance(v, (Tens, Vec)):
+            raise EvalError("truth value of a tensor")
+        if isinstance(v, InvVal):
+            return self.truth(Cond(self.num(v)))
+        return super().truth(v)
+
+    # ---- expressions
+    def e_BinOp(self, e, env):
+        a, b = self.eval(e.left, env), self.eval(e.right, env)
+        self.cur = (e, env)
+        return self.binop(e.op, a, b)
+
+    def plus(self, a, b):
+        return self.binop(ast.Add(), a, b)
+
+    def _base_binop(self, op, a, b):
+        env = Env(None, None)
+        env.vars["__l"], env.vars["__r"] = a, b
+        return Interp.e_BinOp(self, ast.BinOp(left=ast.Name(id="__l", ctx=ast.Load()), op=op, right=ast.Name(id="__r", ctx=ast.Load())), env)
+
+    def binop(self, op, a, b):
+        if isinstance(a, InvVal):
+            a = self.num(a)
+        if isinstance(b, InvVal):
+            b = self.num(b)
+        if isinstance(a, Cond) or isinstance(b, Cond):
+            if isinstance(op, (ast.BitAnd, ast.BitOr)):
+                if isinstance(a, bool) or isinstance(b, bool):
+                    k, c = (a, b) if isinstance(a, bool) else (b, a)
+                    if isinstance(op, ast.BitAnd):
+                        return c if k else False
+                    return True if k else c
+                if isinstance(a, Cond) and isinstance(b, Cond):
+                    return Cond(self.opq("and" if isinstance(op, ast.BitAnd) else "or", a.d, b.d))
+            raise EvalError("arithmetic on a symbolic condition")
+        special = (Tens, Vec)
+        if not isinstance(a, special) and not isinstance(b, special):
+            try:
+                return self._base_binop(op, a, b)
+            except (EvalError, ZeroDivisionError):
+                if isinstance(op, ast.Pow) and _scalar_like(a) and _scalar_like(b):
+                    return self.opq("pow", self.num(a), self.num(b))
+                raise
+        if isinstance(op, ast.MatMult):
+            if isinstance(a, Vec) and isinstance(b, Vec):
+                return self.vec_dot(a, b)
+            if isinstance(a, Vec) or isinstance(b, Vec):
+                raise EvalError("product of a vector with a tensor")
+            return self.t_matmul(self.as_tens(a, "matrix product"), self.as_tens(b, "matrix product"))
+        if isinstance(op, (ast.Add, ast.Sub)):
+            sub = isinstance(op, ast.Sub)
+            if isinstance(a, Tens) or isinstance(b, Tens):
+                if _scalar_like(a) or _scalar_like(b):
+                    raise EvalError("a scalar is added to every entry of a tensor")
+                x, y = self.as_tens(a, "sum"), self.as_tens(b, "sum")
+                return Tens(x.p + (-y.p if sub else y.p))
+            return self.vec_zip(a, b, (lambda x, y: x - y) if sub else (lambda x, y: x + y),
+                                lambda x, y: Tens(x.p + (-y.p if sub else y.p)))
+        if isinstance(op, (ast.Mult, ast.Div)):
+            div = isinstance(op, ast.Div)
+            t, s = (a, b) if isinstance(a, special) else (b, a)
+            if isinstance(a, Tens) and isinstance(b, Tens) and not div:
+                return Hadamard(a, b)
+            if isinstance(s, special) or not _scalar_like(s) or (div and t is b):
+                if isinstance(s, Arr) and s.size() == 1 and not (div and t is b):
+                    s = s.data[0]
+                else:
+                    raise EvalError("element-wise product / quotient of tensors")
+            s = self.num(s)
+            if not rat_is_zero(s.b):
+                raise EvalError("dual number in the frame calculus")
+            if div and rat_is_zero(s.a):
+                raise EvalError("division by zero")
+            if isinstance(t, Tens):
+                return Tens(t.p.scale(A.const(1) / s.a if div else s.a))
+            return self.vec_scale(t, s, div)
+        raise EvalError(f"operation {type(op).__name__} on tensors")
+
+    def vec_dot(self, a: Vec, b: Vec):
+        if len(a) != len(b):
+            raise EvalError("inner product of vectors of different lengths")
+        starts = {o for (o, t) in self.blocks(a) + self.blocks(b) if t is not None}
+        tot, i = Dual(0), 0
+        while i < len(a):
+            if i in starts:
+                tot = tot + self.t_tensordot(self.vec_to_tens(a.cells[i:i + 9]), self.vec_to_tens(b.cells[i:i + 9]))
+                i += 9
+            else:
+                tot = tot + self.cell_value(a.cells[i]) * self.cell_value(b.cells[i])
+                i += 1
+        return tot
+
+    def e_UnaryOp(self, e, env):
+        v = self.eval(e.operand, env)
+        if isinstance(v, Cond) and isinstance(e.op, (ast.Invert, ast.Not)):
+            if isinstance(e.op, ast.Not):
+                return not self.truth(v)
+            return Cond(self.opq("not", v.d))
+        if isinstance(v, (Tens, Vec, InvVal)):
+            if isinstance(e.op, ast.USub):
+                return self.neg(v)
+            if isinstance(e.op, ast.UAdd):
                 return v
-            d = dotted(e)
-            return A.atom(d or norm_src(e))
-        if isinstance(e, ast.UnaryOp) and isinstance(e.op, ast.USub):
-            v = self.ev(e.operand)
-            return -v if isinstance(v, NC) else A.norm(-v)
-        if isinstance(e, ast.BinOp):
-            a, b = self.ev(e.left), self.ev(e.right)
-            op = e.op
-            if isinstance(op, ast.MatMult):
-                if isinstance(a, NC) and isinstance(b, NC):
-                    r = a.mul(b)
-                    for w in r.t:
-                        self.word_type(w, e)
-                    self.checked += 1
-                    return r
-                raise Unknown("matmul of non-matrices")
-            if isinstance(op, (ast.Add, ast.Sub)):
-                if isinstance(a, NC) and isinstance(b, NC):
-                    return a + (b if isinstance(op, ast.Add) else -b)
-                if isinstance(a, Rat) and isinstance(b, Rat):
-                    return A.norm(a + b) if isinstance(op, ast.Add) else A.norm(a - b)
-                raise Unknown("matrix +- scalar")
-            if isinstance(op, ast.Mult):
-                if isinstance(a, NC) and isinstance(b, Rat):
-                    return a.scale(b)
-                if isinstance(b, NC) and isinstance(a, Rat):
-                    return b.scale(a)
-                if isinstance(a, Rat) and isinstance(b, Rat):
-                    return A.norm(a * b)
-                raise Unknown("elementwise matrix product")
-            if isinstance(op, ast.Div):
-                if isinstance(a, NC) and isinstance(b, Rat):
-                    return a.scale(A.const(1) / b)
-                if isinstance(a, Rat) and isinstance(b, Rat):
-                    return A.norm(a / b)
-            if isinstance(op, ast.Pow) and isinstance(a, Rat):
-                return A.atom(f"pow({a!r},{norm_src(e.right)})")
-            raise Unknown("binary op")
-        if isinstance(e, ast.Subscript):
-            base = self.ev(e.value) if not isinstance(e.value, ast.Name) or e.value.id in self.env else None
-            if isinstance(base, NC):
-                idx = e.slice.elts if isinstance(e.slice, ast.Tuple) else [e.slice]
-                if idx and all(isinstance(i_, ast.Constant) and isinstance(i_.value, int) for i_ in idx):
-                    raise FrameError(e, f"the single component `{norm_src(e)}` of a tensor is not invariant under a rotation of its frame "
-                                        f"(an isotropic / objective energy may depend on a tensor only through invariants)")
-            if isinstance(e.value, ast.Name) and e.value.id in self.env and isinstance(self.env[e.value.id], dict):
-                return self.env[e.value.id].get(norm_src(e.slice), A.atom(norm_src(e)))
-            return A.atom(norm_src(e))
-        if isinstance(e, ast.Call):
-            return self.call(e)
-        if isinstance(e, ast.Compare) and len(e.ops) == 1:
-            l_, r_ = self.ev(e.left), self.ev(e.comparators[0])
-            if isinstance(l_, Rat) and isinstance(r_, Rat):
-                return A.atom(f"cmp({l_!r},{type(e.ops[0]).__name__},{r_!r})")
-            raise Unknown("comparison of matrices")
-        raise Unknown(type(e).__name__)
+            raise EvalError("unary operation on a tensor")
+        if isinstance(e.op, ast.USub):
+            return self.neg(v)
+        if isinstance(e.op, ast.UAdd):
+            return v
+        if isinstance(e.op, ast.Not):
+            return not self.truth(v)
+        if isinstance(e.op, ast.Invert) and isinstance(v, bool):
+            return not v
+        raise EvalError("unary op")
 
-    def endo(self, p, node, what):
-        if not isinstance(p, NC):
-            raise Unknown(f"{what} of a value that is not a typed tensor")
-        ty = self.poly_type(p, node, what)
-        if ty[0] != ty[1]:
-            raise FrameError(node, f"{what} is applied to a tensor with frames {ty}; it needs an endomorphism of one frame")
-        return ty
+    def neg(self, v):
+        if isinstance(v, Tens):
+            return Tens(-v.p)
+        if isinstance(v, Vec):
+            return self.vec_scale(v, Dual(-1))
+        if isinstance(v, InvVal):
+            return -self.num(v)
+        return super().neg(v)
 
-    def call(self, e):
-        d = dotted(e.func) or ""
-        last = d.split(".")[-1]
-        args = e.args
-        if last in ("eye", "identity"):
-            return NC.ident()
-        if d in ("np.reshape", "jnp.reshape", "onp.reshape") and args:
-            return self.ev(args[0])
-        if last == "reshape" and isinstance(e.func, ast.Attribute):
-            return self.ev(e.func.value)
-        if last in ("trace",):
-            v = self.ev(args[0])
-            return self.trace(v, e) if isinstance(v, NC) else v
-        if last == "tensordot" and len(args) == 2:
-            a, b = self.ev(args[0]), self.ev(args[1])
-            if isinstance(a, NC) and isinstance(b, NC):
-                return self.trace(a.T(self.types).mul(b), e)
-            raise Unknown("tensordot of non-matrices")
-        if last == "norm_of_deviator_squared":
-            v = self.ev(args[0])
-            self.endo(v, e, "norm_of_deviator_squared")
-            dv = self.dev(v, e)
-            return self.trace(dv.T(self.types).mul(dv), e)
-        if last == "det":
-            v = self.ev(args[0])
-            for w in v.t:
-                self.word_type(w, e)
-            if len(v.t) == 1:
-                (w, c), = v.t.items()
-                return A.norm(c * c * c * A.atom("det[" + ".".join(w) + "]")) if w else A.norm(c * c * c)
-            raise Unknown("det of a sum")
-        if last == "detpIm1":
-            v = self.ev(args[0])
-            w = v + NC.ident()
-            if len(w.t) == 1 and list(w.t)[0]:
-                (wd, c), = w.t.items()
-                self.word_type(wd, e)
-                return A.norm(c * c * c * A.atom("det[" + ".".join(wd) + "]") - A.const(1))
-            raise Unknown("detpIm1 of a general tensor")
-        if last in ("where", "if_then_else") and len(args) == 3:
-            vals = [self.ev(a) for a in args]
-            if all(isinstance(v, Rat) for v in vals):
-                return A.atom(f"where({','.join(repr(v) for v in vals)})")
-            raise Unknown("where of matrices")
-        if last in ("log", "log1p", "exp", "sqrt", "power", "expm1", "abs"):
-            vals = [self.ev(a) for a in args]
-            if all(isinstance(v, Rat) for v in vals):
-                return A.atom(f"{last}({','.join(repr(v) for v in vals)})")
-            raise Unknown(f"{last} of a matrix")
-        if last in ("dev", "deviator"):
-            v = self.ev(args[0])
-            self.endo(v, e, "dev")
-            return self.dev(v, e)
-        if last == "sym":
-            v = self.ev(args[0])
-            r = (v + v.T(self.types)).scale(A.const(1) / A.const(2))
-            self.poly_type(r, e, "sym")
-            return r
-        if last == "inv":
-            v = self.ev(args[0])
-            if len(v.t) == 1:
-                (w, c), = v.t.items()
-                self.word_type(w, e)
-                if all(x in INVERSE for x in w):
-                    return NC({tuple(INVERSE[x] for x in reversed(w)): A.norm(A.const(1) / c)})
-            ty = self.endo(v, e, "inverse")
-            return self.new_letter(ty, False, "Inv")
-        if last in ("log_sqrt_symm", "log_symm", "sqrt_symm", "exp_symm", "pow_symm", "expm"):
-            v = self.ev(args[0])
-            ty = self.endo(v, e, last)
-            if ty == ("*", "*"):
-                return NC.ident().scale(A.atom(f"{last}(1)"))
-            return self.new_letter(ty, True, last[:3].capitalize())
-        # a small straight-line helper of the repository: evaluate its value with the arguments substituted
+    def e_IfExp(self, e, env):
+        c = self.eval(e.test, env)
+        if isinstance(c, Cond):
+            return self.select(c, self.eval(e.body, env), self.eval(e.orelse, env))
+        return self.eval(e.body if self.truth(c) else e.orelse, env)
+
+    def e_Subscript(self, e, env):
+        base = self.eval(e.value, env)
+        key = self.eval_index(e.slice, env)
+        if isinstance(base, Tens):
+            self.cur = (e, env)
+        return self.getitem(base, key)
+
+    def getitem(self, base, key):
+        if isinstance(base, InvVal):
+            return InvVal(base.why)
+        if isinstance(base, Tens):
+            key = self._norm_key(key)
+            if isinstance(key, tuple) and len(key) == 2 and all(isinstance(k, int) for k in key):
+                i, j = (k + 3 if k < 0 else k for k in key)
+                if not (0 <= i < 3 and 0 <= j < 3):
+                    raise EvalError("tensor index out of range")
+                return self.comp(base.p, i, j)
+            raise EvalError("rows / slices of a tensor are not frame-typed")
+        if isinstance(base, Vec):
+            key = self._norm_key(key)
+            if isinstance(key, int):
+                k = key + len(base) if key < 0 else key
+                if not 0 <= k < len(base):
+                    raise EvalError("index out of range")
+                return self.cell_value(base.cells[k])
+            if isinstance(key, slice):
+                return Vec(base.cells[key])
+            raise EvalError(f"unsupported index {key!r} of a state vector")
+        return super().getitem(base, key)
+
+    def e_Attribute(self, e, env):
+        base = self.eval(e.value, env)
+        a = e.attr
+        if isinstance(base, InvVal):
+            return InvVal(base.why)
+        if isinstance(base, Tens):
+            if a == "T":
+                return Tens(self.nc_T(base.p))
+            if a == "shape":
+                return (3, 3)
+            if a == "size":
+                return 9
+            if a == "ndim":
+                return 2
+            if a in ("ravel", "reshape", "flatten", "transpose", "dot", "copy"):
+                return ("method", base, a)
+            raise EvalError(f"attribute {a} of a tensor")
+        if isinstance(base, Vec):
+            if a == "T":
+                return base
+            if a == "shape":
+                return (len(base),)
+            if a == "size":
+                return len(base)
+            if a == "ndim":
+                return 1
+            if a == "at":
+                return AtProxy(base)
+            if a in ("ravel", "reshape", "flatten", "dot", "copy"):
+                return ("method", base, a)
+            raise EvalError(f"attribute {a} of a state vector")
+        if isinstance(base, Arr) and a in ("flatten", "copy", "ndim"):
+            return base.ndim if a == "ndim" else ("method", base, a)
+        if isinstance(base, Partial) and a in ("func", "args", "keywords"):
+            return {"func": base.fn, "args": tuple(base.args), "keywords": dict(base.kwargs)}[a]
+        # e_Attribute of the base class evaluates e.value again: bind the value instead
+        env2 = Env(getattr(env, "scope", None), env)
+        env2.vars["__b"] = base
+        return Interp.e_Attribute(self, ast.Attribute(value=ast.Name(id="__b", ctx=ast.Load()), attr=a, ctx=ast.Load()), env2)
+
+    def _shape_arg(self, args):
+        shp = args[0] if len(args) == 1 and isinstance(args[0], (tuple, list)) else tuple(args)
+        return tuple(self.as_int(s) for s in shp)
+
+    def call_method(self, base, name, args, kwargs):
+        if isinstance(base, Tens):
+            if name in ("ravel", "flatten"):
+                return self.to_vec(base)
+            if name == "copy":
+                return base
+            if name == "transpose" and not args:
+                return Tens(self.nc_T(base.p))
+            if name == "reshape":
+                shp = self._shape_arg(args)
+                if shp == (3, 3):
+                    return base
+                if shp in ((9,), (-1,)):
+                    return self.to_vec(base)
+                raise EvalError(f"reshape of a tensor to {shp}")
+            if name == "dot":
+                return self.binop(ast.MatMult(), base, args[0])
+        if isinstance(base, Vec):
+            if name in ("ravel", "flatten", "copy"):
+                return base
+            if name == "reshape":
+                shp = self._shape_arg(args)
+                if shp in ((3, 3), (3, -1), (-1, 3)) and len(base) == 9:
+                    return self.vec_to_tens(base.cells)
+                if shp in ((len(base),), (-1,)):
+                    return base
+                if len(shp) == 3 and shp[1:] == (3, 3) and len(base) % 9 == 0 and shp[0] in (-1, len(base) // 9):
+                    # a stack of 3x3 tensors: a list (indexing, iteration, zip work on it)
+                    return [self.vec_to_tens(base.cells[9 * k: 9 * k + 9]) for k in range(len(base) // 9)]
+                raise EvalError(f"reshape of a vector of length {len(base)} to {shp}")
+            if name == "dot":
+                return self.binop(ast.MatMult(), base, args[0])
+        if isinstance(base, Arr) and name in ("flatten", "copy"):
+            return base.ravel() if name == "flatten" else base
+        if isinstance(base, AtIndexed) and (isinstance(base.arr, Vec) or (args and isinstance(args[0], (Vec, Tens)))):
+            key = self._norm_key(base.key)
+            if name == "get":
+                return self.getitem(base.arr, key)
+            if name in ("set", "add"):
+                if isinstance(base.arr, Arr) and base.arr.ndim != 1:
+                    raise EvalError("tensor stored into a multi-dimensional array")
+                return self.vec_set(base.arr, key, args[0], add=(name == "add"))
+        return super().call_method(base, name, args, kwargs)
+
+    # ---- calls
+    def e_Call(self, e, env):
+        f = self.eval(e.func, env)
+        args = []
+        for a in e.args:
+            if isinstance(a, ast.Starred):
+                args += list(self.iterate(self.eval(a.value, env)))
+            else:
+                args.append(self.eval(a, env))
+        kwargs = {}
+        for k in e.keywords:
+            if k.arg:
+                kwargs[k.arg] = self.eval(k.value, env)
+            else:
+                d = self.eval(k.value, env)
+                if not isinstance(d, dict):
+                    raise EvalError("** of a value that is not a dictionary")
+                kwargs.update(d)
+        self.cur = (e, env)
+        r = self.call(f, args, kwargs)
+        self.cur = (e, env)
+        return r
+
+    def call(self, f, args, kwargs):
         try:
-            from .common import _callee_scope, _bind_args, inline_value, _Subst
-            import copy
-            callee = _callee_scope(e.func, self.scope)
-            if callee is not None and callee.kind == "function" and callee.cls is None:
-                m_ = _bind_args(e, callee)
-                val_ = inline_value(callee, 0) if m_ is not None else None
-                if val_ is not None:
-                    sub_ = ast.fix_missing_locations(_Subst(m_).visit(copy.deepcopy(val_)))
-                    # slices of a state / increment vector that are reshaped to 3x3 are the tensor the name is bound to
-                    tens_ = {k for k, x in self.env.items() if isinstance(x, NC)}
-                    sub_ = _StateSub(tens_).visit(sub_)
-                    return self.ev(sub_)
-        except (Unknown, RecursionError):
-            pass
-        # a scalar function of scalars is invariant whatever it computes
-        try:
-            vals = [self.ev(a) for a in args]
-        except Unknown:
-            vals = None
-        if vals is not None and vals and all(isinstance(v, Rat) for v in vals):
-            return A.atom(f"{d}({','.join(repr(v) for v in vals)})")
-        raise Unknown(f"call {d}")
+            return self._call(f, args, kwargs)
+        except (EvalError, ZeroDivisionError, NotPolynomial) as ex:
+            # parametricity: a computation all of whose inputs are frame invariant is invariant whatever it computes
+            if all(self.is_inv(x) for x in [f] + list(args) + list(kwargs.values())):
+                self.fallbacks.append(f"{f!r}: {ex}")
+                return InvVal(str(ex))
+            raise
 
-    def dev(self, v, node):
-        tr = self.trace(v, node)
-        return v + NC.ident().scale(A.norm(-tr / A.const(3)))
+    def _call(self, f, args, kwargs):
+        if isinstance(f, Partial):
+            return self.call(f.fn, f.args + list(args), dict(f.kwargs, **kwargs))
+        if isinstance(f, InvVal):
+            if all(self.is_inv(x) for x in list(args) + list(kwargs.values())):
+                return InvVal(f.why)
+            raise EvalError("an uninterpreted function is applied to a tensor")
+        if isinstance(f, Vmapped):
+            raise EvalError("vmap in the frame calculus")
+        return super().call(f, args, kwargs)
 
-    # ---- straight-line function bodies
-    def run(self, fn_node):
-        for st in fn_node.body:
-            if isinstance(st, ast.Expr) and isinstance(st.value, ast.Constant):
+    def call_closure(self, f: Closure, args, kwargs):
+        if f.scope.qualname not in self.special and any(isinstance(a, Tens) for a in list(args) + list(kwargs.values())):
+            kind = recognise_helper(self.repo, f)
+            if kind is not None:
+                sc = f.scope
+                bound = dict(zip(sc.params(), args))
+                bound.update(kwargs)
+                t = bound.get(kind[1])
+                if isinstance(t, Tens):
+                    self.visited.add(sc.qualname)
+                    return self.apply_helper(kind[0], t)
+        return super().call_closure(f, args, kwargs)
+
+    def apply_helper(self, kind, t: Tens):
+        if kind == "trace":
+            return self.tr_of(t.p)
+        if kind == "det":
+            return self.t_det(t)
+        if kind == "detpIm1":
+            return self.t_detpIm1(t)
+        if kind == "I2":
+            tr = self.tr_of(t.p)
+            return (tr * tr - self.tr_of(t.p.mul(t.p))) * Dual(Fraction(1, 2))
+        if kind == "normsq":
+            return self.t_tensordot(t, t)
+        if kind == "inv":
+            return self.t_inv(t)
+        if kind == "transpose":
+            return Tens(self.nc_T(t.p))
+        raise EvalError(f"helper kind {kind}")
+
+    def call_deriv(self, f: Deriv, args, kwargs):
+        if f.argnum >= len(args) or not _scalar_like(args[f.argnum]):
+            raise EvalError("derivative with respect to a tensor argument")
+        v = self.call(f.fn, list(args), kwargs)
+        if not _scalar_like(v):
+            raise EvalError("derivative of a function that does not return a scalar")
+        # the derivative of an invariant scalar with respect to an invariant scalar is invariant (the marker of a
+        # non-invariant value is inherited through the opaque atom)
+        return self.opq(f"d{f.argnum}", self.num(v), self.num(args[f.argnum]))
+
+    def call_ext(self, name, args, kwargs):
+        if name == "functools.partial" and args:
+            return Partial(args[0], args[1:], kwargs)
+        if name == "jax.lax.cond" and len(args) >= 3 and isinstance(args[0], Cond):
+            ops = list(args[3:])
+            x = self.call(args[1], ops, {})
+            y = self.call(args[2], ops, {})
+            return self.select(args[0], x, y)
+        if name == "jax.lax.cond" and len(args) >= 3 and isinstance(args[0], InvVal):
+            return self.call_ext(name, [Cond(self.num(args[0]))] + list(args[1:]), kwargs)
+        if name == "jax.scipy.linalg.expm" or name.endswith("linalg.expm"):
+            return self.t_expm(args[0])
+        if name in ("builtins.float", "builtins.int") and args and isinstance(args[0], (Tens, Vec)):
+            raise EvalError("float() of a tensor")
+        if name == "builtins.len" and args and isinstance(args[0], (Vec, Tens)):
+            return len(args[0]) if isinstance(args[0], Vec) else 3
+        if name in ("builtins.max", "builtins.min") and len(args) == 2 and all(_scalar_like(a) for a in args):
+            try:
+                return super().call_ext(name, args, kwargs)
+            except EvalError:
+                return self.opq(name.split(".")[-1], self.num(args[0]), self.num(args[1]))
+        return super().call_ext(name, args, kwargs)
+
+    def np_call(self, fn, args, kwargs):
+        if fn == "sum" and len(args) == 1 and isinstance(args[0], Hadamard) and not kwargs:
+            return self.t_tensordot(args[0].a, args[0].b)
+        if fn == "einsum" and args and isinstance(args[0], str) and any(isinstance(a, Tens) for a in args[1:]):
+            return self.t_einsum(args[0], list(args[1:]))
+        has_t = any(isinstance(a, (Tens, Vec)) for a in args) or any(isinstance(a, (list, tuple)) and any(isinstance(x, (Tens, Vec)) for x in a) for a in args)
+        if fn == "where" and len(args) == 3:
+            if isinstance(args[0], (Cond, InvVal)) or has_t:
+                c = Cond(self.num(args[0])) if isinstance(args[0], InvVal) else args[0]
+                return self.select(c, args[1], args[2])
+        if fn in ("log", "log1p", "exp", "expm1", "sqrt", "abs", "absolute", "sign", "cos", "sin", "tan", "arccos", "arcsin", "arctan", "tanh", "cosh", "sinh", "square", "cbrt") and len(args) == 1 and _scalar_like(args[0]):
+            if fn == "square":
+                return self.num(args[0]) * self.num(args[0])
+            return self.s_fun(fn, args)
+        if fn in ("power", "maximum", "minimum", "arctan2", "hypot", "float_power") and len(args) == 2 and all(_scalar_like(a) for a in args):
+            try:
+                return super().np_call(fn, args, kwargs)
+            except (EvalError, ZeroDivisionError):
+                return self.opq(fn, self.num(args[0]), self.num(args[1]))
+        if fn == "clip" and len(args) == 3 and all(_scalar_like(a) for a in args):
+            try:
+                return super().np_call(fn, args, kwargs)
+            except EvalError:
+                return self.opq("clip", *[self.num(a) for a in args])
+        if fn in ("isfinite", "isnan") and len(args) == 1 and _scalar_like(args[0]):
+            return Cond(self.opq(fn, self.num(args[0])))
+        if fn in ("logical_and", "logical_or") and len(args) == 2:
+            return self.binop(ast.BitAnd() if fn == "logical_and" else ast.BitOr(), args[0], args[1])
+        if fn == "logical_not" and len(args) == 1 and isinstance(args[0], Cond):
+            return Cond(self.opq("not", args[0].d))
+        if not has_t:
+            return super().np_call(fn, args, kwargs)
+        x = args[0]
+        if fn == "trace":
+            return self.tr_of(self.as_tens(x, "trace").p)
+        if fn == "tensordot":
+            if len(args) > 2 or "axes" in kwargs:
+                ax = kwargs.get("axes", args[2] if len(args) > 2 else 2)
+                if ax != 2:
+                    raise EvalError("tensordot with axes")
+            return self.t_tensordot(args[0], args[1])
+        if fn in ("dot", "matmul"):
+            return self.binop(ast.MatMult(), args[0], args[1])
+        if fn in ("vdot", "inner") and all(isinstance(a, Vec) for a in args[:2]):
+            return self.vec_dot(args[0], args[1])
+        if fn == "linalg.det":
+            return self.t_det(self.as_tens(x, "det"))
+        if fn == "linalg.inv":
+            return self.t_inv(self.as_tens(x, "inverse"))
+        if fn == "linalg.norm" and len(args) == 1:
+            if isinstance(x, Tens):
+                return self.s_fun("sqrt", [self.t_tensordot(x, x)])
+            return self.s_fun("sqrt", [self.vec_dot(x, x)])
+        if fn in ("transpose",) and len(args) == 1 and isinstance(x, Tens):
+            return Tens(self.nc_T(x.p))
+        if fn in ("ravel",):
+            return self.to_vec(x)
+        if fn == "reshape":
+            shp = args[1] if len(args) > 1 else kwargs.get("newshape", kwargs.get("shape"))
+            shp = shp if isinstance(shp, (tuple, list)) else (shp,)
+            return self.call_method(x, "reshape", [tuple(shp)], {})
+        if fn in ("hstack", "concatenate"):
+            return self.to_vec(list(self.iterate(x)))
+        if fn in ("array", "asarray"):
+            if isinstance(x, (Tens, Vec)):
+                return x
+            items = list(x)
+            if all(_scalar_like(i) or (isinstance(i, Vec) and len(i) == 1) for i in items):
+                return self.to_vec(items)
+            raise EvalError("array of tensors")
+        if fn == "tile":
+            reps = args[1]
+            reps = (reps,) if not isinstance(reps, (tuple, list)) else tuple(reps)
+            if all(self.as_int(r) == 1 for r in reps):
+                return x
+            raise EvalError("tile of a tensor")
+        if fn in ("split", "array_split") and isinstance(x, Vec) and len(args) >= 2 and not isinstance(args[1], (list, tuple, Arr)):
+            k = self.as_int(args[1])
+            if k <= 0 or len(x) % k != 0:
+                raise EvalError("np.split into unequal parts")
+            w = len(x) // k
+            return [Vec(x.cells[i * w:(i + 1) * w]) for i in range(k)]
+        if fn in ("zeros_like",):
+            if isinstance(x, Tens):
+                return Tens(NC())
+            return Vec([Dual(0)] * len(x))
+        if fn == "sum" and isinstance(x, Vec) and len(args) == 1:
+            tot = Dual(0)
+            for c in x.cells:
+                tot = tot + self.cell_value(c)
+            return tot
+        raise EvalError(f"numpy function {fn} of a tensor")
+
+    # ---- statements
+    def stmt(self, st, env):
+        if isinstance(st, ast.If):
+            c = self.eval(st.test, env)
+            self.block(st.body if self.truth(c) else st.orelse, env)
+            return
+        if isinstance(st, ast.While):
+            n = 0
+            while self.truth(self.eval(st.test, env)):
+                self.block(st.body, env)
+                n += 1
+                if n > 50:
+                    raise EvalError("loop does not terminate on the abstract values")
+            return
+        if isinstance(st, ast.For):
+            it = self.iterate(self.eval(st.iter, env))
+            for x in it:
+                self.assign(st.target, x, env)
+                self.block(st.body, env)
+            return
+        if isinstance(st, ast.AugAssign) and isinstance(st.target, ast.Name):
+            cur = self.eval(ast.Name(id=st.target.id, ctx=ast.Load()), env)
+            self.cur = (st, env)
+            env.vars[st.target.id] = self.binop(st.op, cur, self.eval(st.value, env))
+            return
+        super().stmt(st, env)
+
+    def assign(self, t, v, env):
+        if isinstance(v, InvVal) and isinstance(t, (ast.Tuple, ast.List)):
+            for a in t.elts:
+                self.assign(a.value if isinstance(a, ast.Starred) else a, InvVal(v.why), env)
+            return
+        if isinstance(t, ast.Subscript):
+            base = self.eval(t.value, env)
+            if isinstance(base, (Vec, Tens)) or isinstance(v, (Vec, Tens)):
+                raise EvalError("in-place store into a tensor")
+        super().assign(t, v, env)
+
+    # ---- running with path enumeration
+    def explore(self, thunk):
+        """run thunk once per outcome of the symbolic conditions that steer Python control flow;
+        returns [(decisions, value)]; raises what thunk raises"""
+        out, prefix = [], []
+        while True:
+            self.decisions, self.taken, self.assumed = list(prefix), [], {}
+            val = thunk()
+            taken = list(self.taken)
+            out.append((taken, val))
+            while taken and taken[-1] is False:
+                taken.pop()
+            if not taken:
+                return out
+            taken[-1] = False
+            prefix = taken
+            if len(out) >= MAX_PATHS:
+                raise EvalError(f"more than {MAX_PATHS} control-flow paths")
+
+    # ---- atoms reachable through opaque function applications
+    def reach_atoms(self, r: Rat, seen=None):
+        seen = seen if seen is not None else set()
+        for a in r.atoms():
+            if a in seen:
                 continue
-            if isinstance(st, ast.Assign) and len(st.targets) == 1:
-                t = st.targets[0]
-                if isinstance(t, ast.Tuple) and isinstance(st.value, ast.Tuple):
-                    for a, b in zip(t.elts, st.value.elts):
-                        self.env[a.id] = self.ev(b)
-                    continue
-                v = self.ev(st.value)
-                if isinstance(t, ast.Name):
-                    self.env[t.id] = v
-                continue
-            if isinstance(st, ast.Return):
-                return self.ev(st.value)
-            if isinstance(st, ast.Delete):
-                continue
-            raise Unknown(f"statement {type(st).__name__}")
+            seen.add(a)
+            if a in self.opaque:
+                for x in self.opaque[a][1]:
+                    self.reach_atoms(x, seen)
+        return seen
+
+
+_HELPER_CACHE = {}
+
+
+def recognise_helper(repo, f: Closure):
+    """Module-level functions of one tensor that read single components of it (closed-form 3x3 determinants, inverses, traces ...) are
+    identified by their *value on a generic symbolic matrix*, whatever they are called and wherever they live:
+    returns (kind, parameter name) with kind in trace / det / detpIm1 / I2 / normsq / inv / transpose, or None (interpret the body)."""
+    sc = f.scope
+    key = (id(repo), sc.qualname, sc.module.digest if hasattr(sc.module, "digest") else None)
+    if key in _HELPER_CACHE:
+        return _HELPER_CACHE[key]
+    _HELPER_CACHE[key] = None
+    if sc.kind != "function" or sc.parent is None or sc.parent.kind != "module":
         return None
+    required = [p_ for p_ in sc.params() if sc.default_of(p_) is None]
+    if len(required) != 1 or sc.has_varargs():
+        return None
+    par = required[0]
+
+    def is_component(n):
+        if not (isinstance(n, ast.Subscript) and isinstance(n.value, ast.Name) and n.value.id == par):
+            return False
+        idx = n.slice.elts if isinstance(n.slice, ast.Tuple) else [n.slice]
+        return len(idx) == 2 and all(isinstance(i_, ast.Constant) and isinstance(i_.value, int) for i_ in idx)
+    if not any(is_component(n) for n in ast.walk(sc.node)):
+        return None
+    I = mt.make_interp(repo)
+    G = Arr([Dual(A.atom(f"@g{i}{j}")) for i in range(3) for j in range(3)], (3, 3))
+    try:
+        r = I.call(Closure(sc, I.module_env(sc.module)), [G], {})
+    except (EvalError, Raised, KeyError, IndexError, TypeError, AttributeError, ValueError, ZeroDivisionError, NotPolynomial, RecursionError):
+        return None
+    g = lambda i, j: G.data[i * 3 + j]
+    kind = None
+    if isinstance(r, Dual):
+        det3 = lambda M: (M(0, 0) * M(1, 1) * M(2, 2) + M(0, 1) * M(1, 2) * M(2, 0) + M(0, 2) * M(1, 0) * M(2, 1)
+                          - M(0, 0) * M(1, 2) * M(2, 1) - M(0, 1) * M(1, 0) * M(2, 2) - M(0, 2) * M(1, 1) * M(2, 0))
+        tr = g(0, 0) + g(1, 1) + g(2, 2)
+        i2 = g(0, 0) * g(1, 1) - g(0, 1) * g(1, 0) + g(0, 0) * g(2, 2) - g(0, 2) * g(2, 0) + g(1, 1) * g(2, 2) - g(1, 2) * g(2, 1)
+        gi = lambda i, j: g(i, j) + Dual(1 if i == j else 0)
+        cands = {"trace": tr, "det": det3(g), "I2": i2, "detpIm1": det3(gi) - Dual(1),
+                 "normsq": sum((x * x for x in G.data), Dual(0))}
+        for k_, v in cands.items():
+            if A.equal(r.a, v.a):
+                kind = k_
+                break
+    elif isinstance(r, Arr) and r.shape == (3, 3):
+        from optilint.tensoreval import matmul
+        try:
+            prod = matmul(r, G)
+            if all(A.equal(prod.data[i * 3 + j].a, A.const(1 if i == j else 0)) for i in range(3) for j in range(3)):
+                kind = "inv"
+            elif all(A.equal(r.data[i * 3 + j].a, G.data[j * 3 + i].a) for i in range(3) for j in range(3)):
+                kind = "transpose"
+        except (EvalError, ZeroDivisionError, NotPolynomial):
+            kind = None
+    _HELPER_CACHE[key] = (kind, par) if kind else None
+    return _HELPER_CACHE[key]
 
 
-H_VALUE = lambda: NC({("F",): A.const(1), (): A.const(-1)})     # displacement gradient  H = F - 1
+def _bind(args, kwargs, names):
+    vals = list(args) + [None] * (len(names) - len(args))
+    for k, v in kwargs.items():
+        if k in names:
+            vals[names.index(k)] = v
+    return vals[:len(names)]
 
 
-TARGETS = [
-    # (qualname, {param: value kind}, expectation)   kinds: 'H', 'state:P' (internal distortion [I,R]), 'scalar'
-    ("optimism.material.Neohookean:_neohookean_3D_energy_density", {"dispGrad": "H"}, "scalar"),
-    ("optimism.material.Neohookean:_adagio_neohookean", {"dispGrad": "H"}, "scalar"),
-    ("optimism.material.Gent:_gent_3D_energy_density", {"dispGrad": "H"}, "scalar"),
-    ("optimism.material.LinearElastic:green_lagrange_strain", {"dispGrad": "H"}, ("R", "R")),
-    ("optimism.material.LinearElastic:log_strain", {"dispGrad": "H"}, ("R", "R")),
-    ("optimism.material.J2Plastic:compute_elastic_logarithmic_strain", {"dispGrad": "H", "state": "state:P"}, ("I", "I")),
-    ("optimism.material.HyperViscoelastic:_eq_strain_energy", {"dispGrad": "H"}, "scalar"),
-    ("optimism.material.HyperViscoelastic:_compute_elastic_logarithmic_strain", {"dispGrad": "H", "stateOld": "state:P"}, ("I", "I")),
-    ("optimism.material.MultiBranchHyperViscoelastic:_eq_strain_energy", {"dispGrad": "H"}, "scalar"),
-    ("optimism.material.MultiBranchHyperViscoelastic:_compute_elastic_logarithmic_strain", {"dispGrad": "H", "stateOld": "state:P"}, ("I", "I")),
-    ("optimism.phasefield.PhaseFieldThreshold:compute_logarithmic_strain", {"dispGrad": "H"}, ("R", "R")),
-    ("optimism.phasefield.PhaseFieldThreshold:elastic_volumetric_free_energy", {"strain": "tensor:E"}, "scalar"),
-    ("optimism.phasefield.PhaseFieldThreshold:elastic_deviatoric_free_energy", {"strain": "tensor:E"}, "scalar"),
-    ("optimism.material.J2Plastic:elastic_volumetric_free_energy", {"strain": "tensor:E"}, "scalar"),
-    ("optimism.material.J2Plastic:elastic_deviatoric_free_energy", {"elasticStrain": "tensor:E"}, "scalar"),
-    ("optimism.material.LinearElastic:_linear_elastic_energy_density", {"strain": "tensor:E"}, "scalar"),
-]
-
-STATE_UPDATES = [
-    # (qualname, dispGrad param, state param, strain function (its result type is [I,I]), increment producer)
-    ("optimism.material.J2Plastic:compute_state_new_finite_deformations", "dispGrad", "stateOld"),
-    ("optimism.material.HyperViscoelastic:_compute_state_new", "dispGrad", "stateOld"),
-    ("optimism.material.MultiBranchHyperViscoelastic:_compute_state_new", "dispGrad", "stateOld"),
-]
+def H_VALUE():
+    return Tens(NC({(("F", 0, 0),): A.const(1), (): A.const(-1)}))     # displacement gradient  H = F - 1
 
 
-def _bind(kind):
-    if kind == "H":
-        return H_VALUE()
-    if kind == "state:P":
-        return NC.letter("P")
-    if kind == "tensor:E":
-        return NC.letter("E")
-    return A.atom(kind)
+# ------------------------------------------------------------------------------------------------ model level analysis
+
+class ScenarioResult:
+    def __init__(self, kind):
+        self.kind = kind            # typing of the stored tensors that was used
+        self.frame_errors = []      # [(FrameError, part)]
+        self.undecided = []         # [(part, text)]
+        self.verdicts = []          # [(ok, construct suffix, text)]
+        self.visited = set()
+        self.checked = 0
+        self.paths = 0
+
+    def refuted(self):
+        return bool(self.frame_errors) or any(v[0] is False for v in self.verdicts)
 
 
-class StateArg(dict):
+def _model_args(kind, fi, n_state):
+    H = H_VALUE()
+    state = Vec([SC(k) for k in range(n_state)])
+    dt = Dual(A.atom("dt"))
+    fi.positive.add("dt")
+    if kind == "solid":
+        return [H, state, dt]
+    phase = Dual(A.atom("phase"))
+    grad = Arr([Dual(A.atom("gradphase0")), Dual(A.atom("gradphase1"))], (2,))
+    return [H, phase, grad, state, dt]
+
+
+_EXC = (EvalError, KeyError, AttributeError, IndexError, TypeError, ValueError, ZeroDivisionError, NotPolynomial, RecursionError)
+
+
+def _worst(items):
+    """[(ok, text, where)] -> the worst verdict"""
+    for want in (False, None, True):
+        for it in items:
+            if it[0] is want:
+                return it
+    return True, "", None
+
+
+def _evaluate(ctx, mname, fac, kind, sc, option_keys, parts, state_kind):
+    mod = ctx.need_module(mname)
+    r = ScenarioResult(state_kind)
+    fi = FrameInterp(ctx.repo, state_kind)
+    props = mt.PropDict(fi, sc, option_keys)
+    try:
+        model = fi.call(fi.module_value(mod, fac), [props], {})
+        if not isinstance(model, Record):
+            raise EvalError("the factory does not return a model record")
+        st0 = fi.call(model.get("compute_initial_state"), [], {})
+        n_state = len(fi.to_vec(st0.ravel() if isinstance(st0, Arr) else st0)) if st0 is not None else 0
+    except Raised:
+        return None, fi             # the factory rejects this combination: not an advertised scenario
+    except FrameError as ex:
+        r.frame_errors.append((ex, "setup"))
+        return r, fi
+    except _EXC as ex:
+        r.undecided.append(("setup", f"cannot evaluate the factory: {type(ex).__name__}: {ex}"))
+        return r, fi
+    for part, field in (("energy", "compute_energy_density"), ("state", "compute_state_new")):
+        if part not in parts:
+            continue
+        try:
+            fn = model.get(field)
+        except (ValueError, KeyError):
+            continue
+        if fn is None:
+            continue
+        try:
+            paths = fi.explore(lambda: fi.call(fn, _model_args(kind, fi, n_state), {}))
+            r.paths += len(paths)
+            if part == "energy":
+                ok, text, where = _worst([check_scalar(fi, v, "the energy") for (_, v) in paths])
+                r.verdicts.append((ok, "invariant-energy", text, where))
+            else:
+                agg = {}
+                for (_, v) in paths:
+                    for it in check_state(fi, v, n_state):
+                        agg.setdefault(it[1], []).append((it[0], it[2], it[3] if len(it) > 3 else None))
+                items = [_worst(v) for _, v in sorted(agg.items())]
+                if items:
+                    ok, _t, where = _worst(items)
+                    if ok is True:
+                        tens = [it[1] for it in items if "frames" in it[1]]
+                        text = "; ".join(tens) if tens else f"the new state ({len(items)} entries) consists of invariant scalars"
+                    else:
+                        text = "; ".join(it[1] for it in items if it[0] is ok)
+                    r.verdicts.append((ok, "state-update-frames", text, where))
+        except FrameError as ex:
+            r.frame_errors.append((ex, part))
+        except Raised as ex:
+            r.undecided.append((part, f"the model raises: {ex}"))
+        except _EXC as ex:
+            r.undecided.append((part, f"outside the frame calculus: {type(ex).__name__}: {ex}"))
+    r.visited = set(fi.visited)
+    r.checked = fi.checked
+    return r, fi
+
+
+def evaluate_scenario(ctx, mname, fac, kind, sc, option_keys, parts=("energy", "state")):
+    """interpret the model of one option scenario under the admissible typings of its stored tensors; the first typing
+    under which nothing is refuted is returned (a model is objective / isotropic if SOME transformation rule of its internal
+    variables makes it so), otherwise the result of the first typing.  None: the factory rejects the options."""
+    score = lambda r_: (r_.refuted(), bool(r_.undecided) or any(v[0] is None for v in r_.verdicts))
+    best = None
+    for state_kind in ("mult", "add"):
+        r, fi = _evaluate(ctx, mname, fac, kind, sc, option_keys, parts, state_kind)
+        if r is None:
+            return None
+        if best is None or score(r) < score(best):
+            best = r
+        if score(r) == (False, False):
+            return r
+        # a stored tensor that is multiplied with / inverted against other tensors is a distortion [I_k, R]; only a stored tensor
+        # that is merely added to strains may be typed as a reference strain [R, R] instead
+        if not fi.state_letters or fi.state_in_products:
+            break
+    return best
+
+
+def _label(sc):
+    return ", ".join(f"{k}={v}" for k, v in sorted(sc.items())) or "defaults"
+
+
+def _short(mname):
+    return mname.split(".")[-1]
+
+
+def _scope_of(ctx, ex, default):
+    sc = ex.scope
+    while sc is not None and sc.kind not in ("function", "module"):
+        sc = sc.parent
+    return sc if sc is not None and sc.kind == "function" else default
+
+
+# ------------------------------------------------------------------------------------------------ transformation behaviour
+
+class _Invalid(Exception):
     pass
 
 
-def run_frames(ctx, rule, which="C08"):
-    n = 0
-    for q, binds, expect in TARGETS:
-        sc = ctx.need(q)
-        fe = FrameEval(ctx, sc, {}, rule)
-        for p in sc.params():
-            k = binds.get(p)
-            if k == "H":
-                fe.env[p] = H_VALUE()
-            elif k == "state:P":
-                # any subscript / reshape of the state that is used as a 3x3 tensor is the distortion P
-                fe.env[p] = NC.letter("P")
-            elif k == "tensor:E":
-                fe.env[p] = NC.letter("E")
-        # state[...] subscripts: evaluate `state[SLICE].reshape((3,3))` as P by mapping the Name to P and letting
-        # Subscript of an NC fall through
-        try:
-            v = _run_with_state(fe, sc)
-        except FrameError as ex:
-            ctx.refuted(rule, sc, ex.node, construct=f"{sc.name}:frames", detail=ex.msg)
-            continue
-        except (Unknown, NotPolynomial, KeyError) as ex:
-            ctx.undecided(rule, sc, None, construct=f"{sc.name}:frames", detail=f"expression outside the frame calculus: {ex}")
-            continue
-        n += 1
-        if expect == "scalar":
-            ok = isinstance(v, Rat)
-            bad = [a for a in (v.atoms() if ok else []) if a.startswith("tr!<")]
-            ctx.decide(rule, ok and not bad, sc, None, construct=f"{sc.name}:invariant-scalar",
-                       detail=f"energy depends on F only through {sorted(a for a in v.atoms() if a.startswith(('tr[', 'det[')))} ({fe.checked} products/traces typed)",
-                       bad_detail=f"{sc.name} depends on {bad} (trace of a tensor with one spatial and one reference index): the energy changes under a superposed rotation")
+def _mm(X, Y):
+    return [[sum(X[i][k] * Y[k][j] for k in range(3)) for j in range(3)] for i in range(3)]
+
+
+def _mt(X):
+    return [[X[j][i] for j in range(3)] for i in range(3)]
+
+
+def _mdet(M):
+    return (M[0][0] * (M[1][1] * M[2][2] - M[1][2] * M[2][1]) - M[0][1] * (M[1][0] * M[2][2] - M[1][2] * M[2][0])
+            + M[0][2] * (M[1][0] * M[2][1] - M[1][1] * M[2][0]))
+
+
+def _minv(M):
+    d = _mdet(M)
+    if abs(d) < 1e-9:
+        raise _Invalid("singular sample")
+    c = lambda i, j: M[(i + 1) % 3][(j + 1) % 3] * M[(i + 2) % 3][(j + 2) % 3] - M[(i + 1) % 3][(j + 2) % 3] * M[(i + 2) % 3][(j + 1) % 3]
+    return [[c(j, i) / d for j in range(3)] for i in range(3)]
+
+
+_I3 = [[1.0, 0.0, 0.0], [0.0, 1.0, 0.0], [0.0, 0.0, 1.0]]
+# a proper rotation in general position (3-4-5 rotations about z and about x)
+_Q = _mm([[0.6, -0.8, 0.0], [0.8, 0.6, 0.0], [0.0, 0.0, 1.0]], [[1.0, 0.0, 0.0], [0.0, 0.28, -0.96], [0.0, 0.96, 0.28]])
+_QDESC = "the rotation by atan(4/3) about z composed with the rotation by atan(24/7) about x"
+
+
+class Sampler:
+    """Evaluates the derived expressions of one interpreter at pseudo-random tensors: every base letter is a generic matrix (symmetric
+    where the letter is), every scalar symbol a positive number.  A *view* (frame, Q) rotates one frame: a letter with frames (r, c)
+    becomes Q_r M Q_c^T -- the transformation law its frame type asserts.  Opaque functions are evaluated (log, pow, sel, cmp ...) or
+    replaced by a fixed pseudo-random function of their arguments."""
+
+    def __init__(self, fi, seed):
+        import random
+        self.fi, self.seed, self._random = fi, seed, random
+        self.base, self.cache = {}, {}
+
+    def _rng(self, name):
+        return self._random.Random(f"{self.seed}:{name}")
+
+    def base_matrix(self, b):
+        if b not in self.base:
+            g = self._rng("letter " + b)
+            amp = (0.25, 0.25, 0.05, 0.1, 0.25, 0.02, 0.25, 0.05)[self.seed % 8]
+            M = [[g.uniform(-amp, amp) + (1.0 if i == j else 0.0) for j in range(3)] for i in range(3)]
+            if self.fi.bases[b]["sym"]:
+                M = [[0.5 * (M[i][j] + M[j][i]) for j in range(3)] for i in range(3)]
+            self.base[b] = M
+        return self.base[b]
+
+    def letter(self, x, view):
+        k = ("L", x, view)
+        if k not in self.cache:
+            M = self.base_matrix(x[0])
+            if view is not None:
+                r, c = self.fi.bases[x[0]]["type"]
+                if r == view:
+                    M = _mm(_Q, M)
+                if c == view:
+                    M = _mm(M, _mt(_Q))
+            if x[1]:
+                M = _mt(M)
+            if x[2]:
+                M = _minv(M)
+            self.cache[k] = M
+        return self.cache[k]
+
+    def word(self, w, view):
+        M = _I3
+        for x in w:
+            M = _mm(M, self.letter(x, view))
+        return M
+
+    def nc(self, p: NC, view):
+        out = [[0.0] * 3 for _ in range(3)]
+        for w, c in p.t.items():
+            cv = self.rat(c, view)
+            M = self.word(w, view)
+            for i in range(3):
+                for j in range(3):
+                    out[i][j] += cv * M[i][j]
+        return out
+
+    def poly(self, q: Poly, view):
+        tot = 0.0
+        for m, c in q.t.items():
+            term = float(c)
+            for a, e in m:
+                v = self.atom(a, view)
+                if e < 0 and v == 0:
+                    raise _Invalid("division by zero")
+                term *= v ** e
+            tot += term
+        return tot
+
+    def rat(self, r: Rat, view):
+        d = self.poly(r.d, view)
+        if d == 0:
+            raise _Invalid("division by zero")
+        return self.poly(r.n, view) / d
+
+    def atom(self, a, view):
+        k = ("A", a, view)
+        if k in self.cache:
+            return self.cache[k]
+        fi = self.fi
+        if a in fi.tr_words:
+            M = self.word(fi.tr_words[a], view)
+            v = M[0][0] + M[1][1] + M[2][2]
+        elif a in fi.comps:
+            w, i, j = fi.comps[a]
+            v = self.word(w, view)[i][j]
+        elif a in fi.det_polys:
+            v = _mdet(self.nc(fi.det_polys[a], view))
+        elif a.startswith("det[") and a[4:-1] in fi.bases:
+            v = _mdet(self.letter((a[4:-1], 0, 0), view))
+        elif a in fi.opaque:
+            name, rs = fi.opaque[a]
+            v = self.fun(name, [self.rat(x, view) for x in rs], a)
+        elif a in A.rules:
+            x = self.poly(A.rules[a], view)
+            if x < 0:
+                raise _Invalid("square root of a negative sample")
+            v = math.sqrt(x)
         else:
-            try:
-                ty = fe.poly_type(v, sc.node, "result") if isinstance(v, NC) else None
-            except FrameError as ex:
-                ctx.refuted(rule, sc, ex.node, construct=f"{sc.name}:frames", detail=ex.msg)
+            # positive material constants / time step / state scalars: different orders of magnitude for different seeds, so that
+            # arguments of logarithms and roots fall into their domains for some sample
+            v = self._rng("scalar " + a).uniform(0.6, 1.6) * (1.0, 1.0, 10.0, 0.1, 100.0, 1000.0, 0.01, 10.0)[self.seed % 8]
+        self.cache[k] = v
+        return v
+
+    def fun(self, name, xs, atom):
+        try:
+            if name in ("log", "log1p", "sqrt", "arccos", "arcsin") or name in ("exp", "expm1", "cos", "sin", "tan", "arctan", "tanh", "cosh", "sinh"):
+                return getattr(math, {"arccos": "acos", "arcsin": "asin", "arctan": "atan"}.get(name, name))(xs[0])
+            if name in ("abs", "absolute"):
+                return abs(xs[0])
+            if name == "sign":
+                return (xs[0] > 0) - (xs[0] < 0)
+            if name == "cbrt":
+                return math.copysign(abs(xs[0]) ** (1.0 / 3.0), xs[0])
+            if name in ("pow", "power", "float_power"):
+                return math.pow(xs[0], xs[1])
+            if name in ("maximum", "max"):
+                return max(xs)
+            if name in ("minimum", "min"):
+                return min(xs)
+            if name == "clip":
+                return min(max(xs[0], xs[1]), xs[2])
+            if name == "sel":
+                return xs[1] if xs[0] != 0 else xs[2]
+            if name.startswith("cmp"):
+                d = xs[0]
+                return float({"Lt": d < 0, "LtE": d <= 0, "Gt": d > 0, "GtE": d >= 0, "Eq": d == 0, "NotEq": d != 0}[name[3:]])
+            if name == "and":
+                return float(xs[0] != 0 and xs[1] != 0)
+            if name == "or":
+                return float(xs[0] != 0 or xs[1] != 0)
+            if name == "not":
+                return float(xs[0] == 0)
+        except (ValueError, OverflowError, ZeroDivisionError, KeyError):
+            raise _Invalid(f"{name} outside its domain at the sample")
+        # any other function of scalars: a fixed pseudo-random smooth function of its arguments
+        g = self._rng("function " + name)
+        ph = [g.uniform(0.5, 2.0) for _ in xs] + [g.uniform(0.0, 1.0)]
+        return 1.0 + 0.5 * math.sin(sum(p_ * x for p_, x in zip(ph, xs)) + ph[-1])
+
+
+def _differs(a, b):
+    return abs(a - b) > 1e-7 * (1.0 + abs(a) + abs(b))
+
+
+def _all_frames(fi):
+    out = []
+    for info in fi.bases.values():
+        for f in info["type"]:
+            if f not in out and f != "*":
+                out.append(f)
+    return sorted(out, key=lambda f: (f != S, f != Rf, f))
+
+
+def transformation_witness(fi, r: Rat):
+    """(kind, text) with kind 'changes' | 'switch' | 'same' | 'unknown': does the scalar change under a rotation of one of the frames?"""
+    conds = [(a, fi.opaque[a][1][0]) for a in sorted(fi.reach_atoms(r)) if a in fi.opaque and fi.opaque[a][0].startswith("cmp")]
+    done = 0
+    for seed in (1, 2, 3, 4, 5, 6, 7, 8):
+        sm = Sampler(fi, seed)
+        try:
+            v0 = sm.rat(r, None)
+            c0 = [sm.rat(x, None) for _, x in conds]
+            for X in _all_frames(fi):
+                vX = sm.rat(r, X)
+                if _differs(v0, vX):
+                    return "changes", f"it changes under a rotation of the [{X}] frame (value {v0:.6g} becomes {vX:.6g} under {_QDESC}, for generic tensors)", None
+                for (a, x), y0 in zip(conds, c0):
+                    yX = sm.rat(x, X)
+                    if _differs(y0, yX):
+                        return "switch", (f"it switches on {fi.show(x)}, which changes under a rotation of the [{X}] frame ({y0:.6g} becomes {yX:.6g} under {_QDESC}, "
+                                          f"for generic tensors)"), fi.comp_where.get(a)
+            done += 1
+        except (_Invalid, OverflowError, ZeroDivisionError, ValueError, KeyError):
+            continue
+        if done >= 2:
+            break
+    return ("same", f"unchanged under rotations of the frames {_all_frames(fi)} at {done} generic samples", None) if done else ("unknown", "no admissible sample", None)
+
+
+class _At:
+    def __init__(self, scope):
+        self.scope = scope
+
+
+def _first_marker_site(fi, atoms):
+    for a in sorted(atoms):
+        if MARK in a and fi.comp_where.get(a) is not None and fi.comp_where[a][0] is not None:
+            return fi.comp_where[a]
+    return None
+
+
+def _describe_markers(fi, marks):
+    out = []
+    for a in marks[:4]:
+        if a in fi.tr_words:
+            w = fi.tr_words[a]
+            d = fi.chain_defect(w)
+            out.append(f"tr({wname(w)})" + (f" [{d}]" if d else f" [trace over a [{fi.ltype(w[0])[0]}] and a [{fi.ltype(w[-1])[1]}] index]"))
+        elif a in fi.comps:
+            w, i, j = fi.comps[a]
+            out.append(f"the single component ({wname(w)})[{i},{j}]")
+        elif a in fi.det_polys:
+            out.append(f"det({fi.det_polys[a].key()[:60]})")
+        elif a in fi.opaque:
+            out.append(fi.show(A.atom(a))[:80])
+        else:
+            out.append(a)
+    return ", ".join(out)
+
+
+def check_scalar(fi, v, what):
+    """(ok | None, text, where): is the scalar invariant under rotations of every frame?
+    PROVED: it is built from invariants only (symbolic).  REFUTED: an explicit rotation changes the derived expression at generic
+    tensors (or changes a quantity it switches on).  Otherwise (written in non-invariant quantities that cancel numerically): undecided."""
+    if isinstance(v, InvVal) or isinstance(v, (int, float, Fraction)):
+        return True, f"{what} is computed from invariant quantities only", None
+    if isinstance(v, Arr) and v.size() == 1:
+        v = v.data[0]
+    if not isinstance(v, Dual):
+        return None, f"{what} is not a scalar ({v!r})", None
+    atoms = fi.reach_atoms(v.a)
+    marks = sorted(a for a in atoms if MARK in a and (a in fi.tr_words or a in fi.comps or a in fi.det_polys))
+    other = sorted(a for a in atoms if MARK in a and a not in fi.opaque and a not in marks)
+    if not marks and not other:
+        inv = sorted(a for a in atoms if a.startswith(("tr[", "det[", "det<")))
+        return True, f"{what} depends on the deformation only through {inv[:6]}{' ...' if len(inv) > 6 else ''}", None
+    kind, text, at = transformation_witness(fi, v.a)
+    site = at if at is not None and at[0] is not None else _first_marker_site(fi, marks or other)
+    if kind in ("changes", "switch"):
+        return False, f"{what} depends on {_describe_markers(fi, marks or other)}: {text} (an objective, isotropic energy may depend on tensors only through invariants)", site
+    return None, (f"{what} is written in the non-invariant quantities {_describe_markers(fi, marks or other)}; {text}: "
+                  f"their cancellation is not proved symbolically"), site
+
+
+def check_state(fi, v, n_state):
+    """[(ok | None, slot, text, where)] for the new internal state: the tensor written to a slot must transform like the tensor read from it"""
+    out = []
+    if v is None or isinstance(v, InvVal):
+        return [(None, "state", "the new state could not be interpreted", None)]
+    try:
+        vec = fi.to_vec(v.ravel() if isinstance(v, Arr) else v)
+    except EvalError as ex:
+        return [(None, "state", str(ex), None)]
+    if len(vec) != n_state:
+        return [(None, "state", f"the new state has {len(vec)} entries, the initial state {n_state}", None)]
+    for (o, t) in fi.blocks(vec):
+        if t is not None:
+            at = fi.ravel_where.get(id(t))
+            want = fi.bases[fi.state_letters[o]]["type"] if o in fi.state_letters else None
+            ty = fi.try_type(t.p)
+            if ty is not None and (ty == ("*", "*") or (want is not None and ty == want) or (want is None and S not in ty)):
+                out.append((True, f"slot-{o}", f"the tensor stored in state[{o}:{o + 9}] has frames {ty if ty != ('*', '*') else (want or ty)}", at))
                 continue
-            ok = ty is not None and (ty == tuple(expect) or ty == ("*", "*"))
-            ctx.decide(rule, ok, sc, None, construct=f"{sc.name}:result-frames",
-                       detail=f"result has frames {ty} ({fe.checked} products/traces typed)",
-                       bad_detail=f"{sc.name} returns a tensor with frames {ty}, expected {expect}: it would change under a superposed rotation")
-    for q, hp, sp in STATE_UPDATES:
-        sc = ctx.need(q)
-        _state_update(ctx, rule, sc, hp, sp)
-        n += 1
+            wit = _block_witness(fi, t.p, want)
+            shown = f"frames {ty}" if ty is not None else "no consistent frames (" + (_block_defect(fi, t.p) or "mixed") + ")"
+            if wit is not None:
+                out.append((False, f"slot-{o}", f"the tensor stored in state[{o}:{o + 9}] has {shown}; the tensor read from that slot has frames {want}: {wit}", at))
+            else:
+                out.append((None, f"slot-{o}", f"the tensor stored in state[{o}:{o + 9}] has {shown}; no rotation was found under which it transforms differently from "
+                                                f"the stored tensor with frames {want}", at))
+            continue
+        c = vec.cells[o]
+        if isinstance(c, SC):
+            out.append((True if c.k == o else None, f"slot-{o}", f"state[{o}] is " + ("carried over" if c.k == o else f"overwritten with state[{c.k}]"), None))
+            continue
+        if isinstance(c, TC):
+            out.append((None, f"slot-{o}", f"state[{o}] holds a single entry of a tensor", None))
+            continue
+        ok, text, where = check_scalar(fi, c, f"state[{o}]")
+        out.append((ok, f"slot-{o}", text, where))
+    return out
+
+
+def _block_defect(fi, p: NC):
+    for w in p.t:
+        d = fi.chain_defect(w)
+        if d:
+            return d
+    tys = sorted({fi.word_type(w) for w in p.t if w})
+    return f"sum of tensors with frames {tys}" if len(tys) > 1 else None
+
+
+def _block_witness(fi, p: NC, want):
+    """a rotation under which the new stored tensor does not transform like the tensor it replaces (frames `want`; None: it must
+    simply not rotate with the spatial frame)"""
+    for seed in (1, 2, 3, 4, 5, 6):
+        sm = Sampler(fi, seed)
+        try:
+            M0 = sm.nc(p, None)
+            for X in (_all_frames(fi) if want is not None else [S]):
+                MX = sm.nc(p, X)
+                E = M0
+                if want is not None and want[0] == X:
+                    E = _mm(_Q, E)
+                if want is not None and want[1] == X:
+                    E = _mm(E, _mt(_Q))
+                if any(_differs(MX[i][j], E[i][j]) for i in range(3) for j in range(3)):
+                    law = "stay unchanged" if E is M0 else "transform like the stored tensor"
+                    return (f"under a rotation of the [{X}] frame ({_QDESC}) it should {law} but does not (generic tensors): "
+                            f"the update mixes configurations and is not invariant under rotations")
+            return None
+        except (_Invalid, OverflowError, ZeroDivisionError, ValueError, KeyError):
+            continue
+    return None
+
+
+def analyse_models(ctx, rule, models, parts=("energy", "state")):
+    """models: [(module, factory, kind)].  Emits the obligations of `rule`; returns the number of scenarios analysed."""
+    n = 0
+    reported = set()
+    for (mname, fac, kind) in models:
+        ctx.need_module(mname)
+        fsc = ctx.need(f"{mname}:{fac}")
+        extra = ["optimism.material.Hardening"] if ctx.repo.module("optimism.material.Hardening") is not None and _imports(ctx, mname, "Hardening") else []
+        from . import C08_options as opts
+        values, optional, presence = opts.option_space(ctx, [mname] + extra)
+        keys = set(values) | presence
+        results = []
+        for sc in mt.scenarios(values, optional, presence):
+            r = evaluate_scenario(ctx, mname, fac, kind, sc, keys, parts)
+            if r is not None:
+                results.append((sc, r))
+        declared = lambda sc: any(kv in GEOM_LINEAR for kv in sc.items())
+        linear_sets = [r.visited for (sc, r) in results if declared(sc)]
+        for sc, r in results:
+            # geometrically linear kinematics (declared by the option, or the default that runs the same code) is outside the property
+            if declared(sc) or (r.refuted() and r.visited in linear_sets):
+                continue
+            for q in r.visited:
+                s_ = ctx.repo.find(q)
+                if s_ is not None:
+                    ctx.touch(s_)
+            label = f"{_short(mname)}[{_label(sc)}]"
+            n += 1
+            for (ex, part) in r.frame_errors:
+                sc_ = _scope_of(ctx, ex, fsc)
+                key = (sc_.qualname, getattr(ex.node, "lineno", None), ex.msg)
+                if key in reported:
+                    continue
+                reported.add(key)
+                ctx.refuted(rule, sc_, ex.node, construct=f"{sc_.name}:frames", detail=f"{ex.msg} (model {label})")
+            for (part, text) in r.undecided:
+                ctx.undecided(rule, fsc, None, construct=f"{label}:{part}", detail=text)
+            for (ok, suffix, text, where) in r.verdicts:
+                if r.frame_errors and ok is not False:
+                    continue
+                at_sc, at_node = fsc, None
+                if ok is not True and where is not None and where[0] is not None:
+                    sc_ = getattr(where[1], "scope", None)
+                    while sc_ is not None and sc_.kind not in ("function", "module"):
+                        sc_ = sc_.parent
+                    if sc_ is not None and sc_.kind == "function":
+                        at_sc, at_node = sc_, where[0]
+                if ok is False:
+                    # the same defect is derived for every option scenario that runs the same code: report it once
+                    key = (suffix, at_sc.qualname, getattr(at_node, "lineno", None), text)
+                    if key in reported:
+                        continue
+                    reported.add(key)
+                ctx.decide(rule, ok, at_sc, at_node, construct=f"{label}:{suffix}",
+                           detail=f"{text} ({r.checked} products / traces typed, {r.paths} path(s), stored tensors typed as "
+                                  f"{'distortions [I,R]' if r.kind == 'mult' else 'reference strains [R,R]'})",
+                           bad_detail=f"{label}: {text}")
     return n
 
 
-def _closed_ok(fe, atom):
-    return True   # traces are only created for well-typed closed words (FrameError otherwise)
+def _imports(ctx, mname, what):
+    m = ctx.repo.module(mname)
+    for n in ast.walk(m.tree):
+        if isinstance(n, ast.ImportFrom) and any(a.name == what for a in n.names):
+            return True
+        if isinstance(n, ast.Import) and any(a.name.endswith("." + what) for a in n.names):
+            return True
+    return False
 
 
-class _StateSub(ast.NodeTransformer):
-    """`state[...]` / `state` used as tensor -> the Name itself (bound to P)."""
-    def __init__(self, names):
-        self.names = names
+# ------------------------------------------------------------------------------------------------ entry points of the rules
 
-    def visit_Subscript(self, n):
-        if isinstance(n.value, ast.Name) and n.value.id in self.names:
-            return n.value
-        return self.generic_visit(n)
-
-    def visit_Call(self, n):
-        # the slice of the state vector that belongs to one branch is again a stored distortion
-        if (dotted(n.func) or "").endswith("_return_state_for_branch") and n.args and isinstance(n.args[0], ast.Name) and n.args[0].id in self.names:
-            return n.args[0]
-        return self.generic_visit(n)
-
-
-def _run_with_state(fe, sc):
-    import copy
-    names = {k for k, v in fe.env.items() if isinstance(v, NC) and list(v.t) == [("P",)]}
-    node = _StateSub(names).visit(copy.deepcopy(sc.node)) if names else sc.node
-    return fe.run(node)
-
-
-def _state_update(ctx, rule, sc, hp, sp):
-    """The new internal distortion must be  f(increment of frames [I,I]) @ P_old : frames [I,R]."""
-    import copy
-    cfg = cfg_of(sc)
-    fe = FrameEval(ctx, sc, {}, rule)
-    fe.env[hp] = H_VALUE()
-    fe.env[sp] = NC.letter("P")
-    mod = sc.module
-    found = 0
-    from .common import normalize
-
-    def strain_like(v):
-        """typed value of a trial-strain / state-increment call (possibly nested, after helper inlining), else None"""
-        if isinstance(v, ast.Name):
-            x = fe.env.get(v.id)
-            return x if isinstance(x, NC) else None
-        if isinstance(v, ast.Call):
-            d_ = dotted(v.func) or ""
-            # trial strain: call of the module's elastic strain function -> [I,I] tensor (checked separately above)
-            if d_.endswith(("compute_elastic_logarithmic_strain", "_compute_elastic_logarithmic_strain")):
-                return fe.new_letter((If, If), True, "Ee")
-            # state increment derived from the trial strain (isotropic function of it): same frames
-            if d_.endswith(("compute_state_increment", "_compute_state_increment")) and v.args:
-                src_t = strain_like(v.args[0])
-                if isinstance(src_t, NC):
-                    return fe.new_letter(fe.poly_type(src_t, v, "increment"), True, "dE")
-        return None
-    # statements in order; `a, b = helper(...)` of a straight-line helper is split into its components first
-    stmts = []
-    for st in ast.walk(sc.node):
-        if isinstance(st, ast.Assign) and len(st.targets) == 1:
-            t = st.targets[0]
-            if isinstance(t, ast.Name):
-                stmts.append((st, t.id, st.value))
-            elif isinstance(t, ast.Tuple) and isinstance(st.value, ast.Call):
-                nv = normalize(st.value, sc, stop=("compute_elastic_logarithmic_strain", "_compute_elastic_logarithmic_strain",
-                                                   "compute_state_increment", "_compute_state_increment", "_return_state_for_branch"))
-                if isinstance(nv, ast.Tuple) and len(nv.elts) == len(t.elts):
-                    for te, ve in zip(t.elts, nv.elts):
-                        if isinstance(te, ast.Name):
-                            stmts.append((st, te.id, ve))
-    try:
-        for (st, tname, v) in stmts:
-            if isinstance(v, ast.Call):
-                sl = strain_like(v)
-                if sl is not None:
-                    fe.env[tname] = sl
-                    continue
-                if (dotted(v.func) or "").endswith(("compute_elastic_logarithmic_strain", "_compute_elastic_logarithmic_strain", "compute_state_increment", "_compute_state_increment")):
-                    continue
-            if isinstance(v, ast.Call) and (dotted(v.func) or "").endswith("_return_state_for_branch"):
-                fe.env[tname] = NC.letter("P")
-                continue
-            # tensors built by matrix products: type them
-            if any(isinstance(w, ast.BinOp) and isinstance(w.op, ast.MatMult) for w in ast.walk(v)):
-                vv = _StateSub({sp} | {k for k, x in fe.env.items() if isinstance(x, NC)}).visit(copy.deepcopy(v))
-                val = fe.ev(vv)
-                fe.env[tname] = val
-                if isinstance(val, NC):
-                    ty = fe.poly_type(val, v, "new internal distortion")
-                    found += 1
-                    ok = ty == (If, Rf)
-                    ctx.decide(rule, ok, sc, st, construct=f"{sc.name}:state-update-frames",
-                               detail=f"`{norm_src(st)[:70]}` has frames {ty} like the distortion it replaces",
-                               bad_detail=f"`{norm_src(st)[:90]}` has frames {ty}; the stored distortion has frames ('I','R'): "
-                                          f"the update mixes configurations and is not invariant under rotations")
-                continue
-            try:
-                vv = _StateSub({sp} | {k for k, x in fe.env.items() if isinstance(x, NC)}).visit(copy.deepcopy(v))
-                val = fe.ev(vv)
-                if isinstance(val, NC):
-                    fe.env[tname] = val
-            except (Unknown, NotPolynomial, KeyError):
-                pass
-    except FrameError as ex:
-        ctx.refuted(rule, sc, ex.node, construct=f"{sc.name}:state-update-frames", detail=ex.msg)
-        return
-    except (Unknown, NotPolynomial, KeyError) as ex:
-        ctx.undecided(rule, sc, None, construct=f"{sc.name}:state-update-frames", detail=f"outside the frame calculus: {ex}")
-        return
-    if found == 0:
-        ctx.undecided(rule, sc, None, construct=f"{sc.name}:state-update-frames", detail="no matrix product defining the new distortion found")
+def run_frames(ctx, rule, which="C08"):
+    n = analyse_models(ctx, rule, mt.MODELS, parts=("energy", "state"))
+    from optilint.core import Incomplete
+    if n < 8:
+        raise Incomplete(f"{n} finite-deformation model scenarios analysed (at least 8 on the reference tree)")
+    return n
 
 
 def run_frames_state_only(ctx, rule, quals):
-    for q, hp, sp in STATE_UPDATES:
-        if q in quals:
-            _state_update(ctx, rule, ctx.need(q), hp, sp)
-    for q, binds, expect in TARGETS:
-        if any(q.split(":")[0] == x.split(":")[0] for x in quals) and expect != "scalar":
-            sc = ctx.need(q)
-            fe = FrameEval(ctx, sc, {}, rule)
-            for p in sc.params():
-                k = binds.get(p)
-                if k == "H":
-                    fe.env[p] = H_VALUE()
-                elif k == "state:P":
-                    fe.env[p] = NC.letter("P")
-            try:
-                v = _run_with_state(fe, sc)
-                ty = fe.poly_type(v, sc.node, "result") if isinstance(v, NC) else None
-            except FrameError as ex:
-                ctx.refuted(rule, sc, ex.node, construct=f"{sc.name}:frames", detail=ex.msg)
-                continue
-            except (Unknown, NotPolynomial, KeyError) as ex:
-                ctx.undecided(rule, sc, None, construct=f"{sc.name}:frames", detail=f"expression outside the frame calculus: {ex}")
-                continue
-            ok = ty is not None and (ty == tuple(expect) or ty == ("*", "*"))
-            ctx.decide(rule, ok, sc, None, construct=f"{sc.name}:result-frames", detail=f"result has frames {ty}",
-                       bad_detail=f"{sc.name} returns a tensor with frames {ty}, expected {expect}: it would change under a superposed rotation")
+    """state updates (and everything interpreted on the way: trial strains, increments) of the models defined in the modules of `quals`"""
+    mods = {q.split(":")[0] for q in quals}
+    models = [m for m in mt.MODELS if m[0] in mods]
+    return analyse_models(ctx, rule, models, parts=("state",))
